@@ -172,10 +172,17 @@ Proof.
   intros E [Ha Hc]. split; auto. eapply Forall_impl; [|exact Hc]. intros c. apply plainh_ext. exact E.
 Qed.
 
-(* every child pointer of the heap leads to a node without allOf rule: in a project whose allOf
-   rules all sit at schema roots, the nodes that are ever mutated are never children *)
+(* `priv` marks the INNER nodes of schemas: objects and arrays without an allOf rule that have an
+   object WITH a rule somewhere below them (never mutated, never copied: only walked through).
+   Everywhere else a child pointer leads to a node without allOf rule: the nodes that are ever
+   mutated are children of inner nodes only. *)
+Section Priv.
+Variable priv : id -> Prop.
+
 Definition heap_ok (st : state) : Prop :=
-  forall i n c, get st i = Some n -> In c (n_children n) -> exists cn, get st c = Some cn /\ n_allof cn = [].
+  (forall i, priv i -> i < List.length (heap st)) /\
+  (forall i n c, ~ priv i -> get st i = Some n -> In c (n_children n) ->
+                 exists cn, get st c = Some cn /\ n_allof cn = [] /\ ~ priv c).
 
 Definition cnodes (st : state) (i : id) : option (list node) :=
   match get st i with Some n => all_some (map (get st) (n_children n)) | None => None end.
@@ -191,11 +198,11 @@ Section Walk.
     induction h as [|h IH]; intros st i fuel H Hle; [destruct H|].
     destruct H as (n & Hg & Ha & Hc).
     destruct fuel as [|f]; [lia|]. simpl. rewrite Hg.
-    destruct (negb (tok_eqb (n_tok n) TObject)); [reflexivity|].
+    destruct (negb (tok_eqb (n_tok n) TObject) && negb (tok_eqb (n_tok n) TArray)); [reflexivity|].
     assert (Hf : fold_res (fun st1 c => process types u f st1 c) (n_children n) st = ROk st).
     { induction Hc as [|c cs Hcc _ IHc]; simpl; [reflexivity|].
       rewrite (IH st c f Hcc); [|lia]. simpl. exact IHc. }
-    rewrite Hf. simpl. rewrite Ha. reflexivity.
+    rewrite Hf. simpl. destruct (negb (tok_eqb (n_tok n) TObject)); [reflexivity|]. rewrite Ha. reflexivity.
   Qed.
 
   Lemma fold_process_plain h st cs fuel :
@@ -287,11 +294,11 @@ Qed.
 
 Lemma cnodes_frame sc scn st st' r n :
   heap_ok st -> get st sc = Some scn -> n_allof scn <> [] -> frame sc st st' ->
-  r <> sc -> get st r = Some n -> cnodes st' r = cnodes st r.
+  r <> sc -> ~ priv r -> get st r = Some n -> cnodes st' r = cnodes st r.
 Proof.
-  intros Hok Hsc Hao Hf Hne Er. unfold cnodes.
+  intros Hok Hsc Hao Hf Hne Hnp Er. unfold cnodes.
   rewrite (Hf r n Hne Er), Er. apply all_some_ext.
-  intros c Hc. destruct (Hok r n c Er Hc) as (cn & Hg & Ha).
+  intros c Hc. destruct (proj2 Hok r n c Hnp Er Hc) as (cn & Hg & Ha & _).
   rewrite Hg. apply Hf; auto. intros ->. rewrite Hsc in Hg. injection Hg as <-. contradiction.
 Qed.
 
@@ -299,27 +306,31 @@ Lemma push_copy_frame st sc scn c : get st sc = Some scn -> frame sc st (push_co
 Proof. intros H i n Hne Hg. apply push_copy_get_other; auto. Qed.
 
 Lemma push_copy_heap_ok st sc scn c :
-  heap_ok st -> get st sc = Some scn -> n_allof scn <> [] -> n_allof c = [] ->
-  (forall x, In x (n_children c) -> exists xn, get st x = Some xn /\ n_allof xn = []) ->
+  heap_ok st -> get st sc = Some scn -> n_allof scn <> [] -> ~ priv sc -> n_allof c = [] ->
+  (forall x, In x (n_children c) -> exists xn, get st x = Some xn /\ n_allof xn = [] /\ ~ priv x) ->
   heap_ok (push_copy st sc scn c).
 Proof.
-  intros Hok Hsc Hao Hca Hcc i n x Hg Hin.
+  intros [Hfresh Hok] Hsc Hao Hnps Hca Hcc.
+  assert (Hnew : ~ priv (List.length (heap st))) by (intros Hp; apply Hfresh in Hp; lia).
+  split.
+  { intros i Hp. rewrite push_copy_length. apply Hfresh in Hp. lia. }
+  intros i n x Hnp Hg Hin.
   assert (Hstable : forall y yn, get st y = Some yn -> n_allof yn = [] -> get (push_copy st sc scn c) y = Some yn).
   { intros y yn Hy Hya. apply push_copy_get_other; auto.
     intros ->. rewrite Hsc in Hy. injection Hy as <-. contradiction. }
   destruct (Nat.eq_dec i sc) as [->|Hne].
   - rewrite (push_copy_get_sc st sc scn c Hsc) in Hg. injection Hg as <-. simpl in Hin.
     destruct Hin as [<-|Hin].
-    + exists c. split; auto. apply push_copy_get_new; auto.
-    + destruct (Hok sc scn x Hsc Hin) as (xn & Hx & Hxa). exists xn. split; auto.
+    + exists c. split; [apply push_copy_get_new; auto|]. split; auto.
+    + destruct (Hok sc scn x Hnps Hsc Hin) as (xn & Hx & Hxa & Hxp). exists xn. split; auto.
   - destruct (Nat.lt_ge_cases i (List.length (heap st))) as [Hlt|Hge].
     + destruct (get st i) as [n0|] eqn:E0; [|apply nth_error_None in E0; lia].
       rewrite (push_copy_get_other st sc scn c i n0 Hne E0) in Hg. injection Hg as <-.
-      destruct (Hok i n0 x E0 Hin) as (xn & Hx & Hxa). exists xn. split; auto.
+      destruct (Hok i n0 x Hnp E0 Hin) as (xn & Hx & Hxa & Hxp). exists xn. split; auto.
     + assert (Hi : i = List.length (heap st)).
       { apply get_lt in Hg. rewrite push_copy_length in Hg. lia. }
       subst i. rewrite (push_copy_get_new st sc scn c Hsc) in Hg. injection Hg as <-.
-      destruct (Hcc x Hin) as (xn & Hx & Hxa). exists xn. split; auto.
+      destruct (Hcc x Hin) as (xn & Hx & Hxa & Hxp). exists xn. split; auto.
 Qed.
 
 Lemma firstn_S_nth {A} (l : list A) i a :
@@ -341,6 +352,8 @@ Section Loop.
   (* what the loop needs to know about a state *)
   Record loop_pre (st : state) (rbn : node) (V : list node) (scn : node) (Cs : list node) : Prop := {
     lp_ok : heap_ok st;
+    lp_np_sc : ~ priv sc;
+    lp_np_rb : ~ priv rb;
     lp_rb : get st rb = Some rbn;
     lp_V : cnodes st rb = Some V;
     lp_Vk : Forall keyed V;
@@ -369,7 +382,7 @@ Section Loop.
     induction cnt as [|i IH]; intros st rbn V scn Cs Hp Hlen Hnd Hdis.
     - exists st, scn. simpl. split; [reflexivity|]. split; [exact Hp|]. split; [repeat split|].
       split; [apply frame_refl|reflexivity].
-    - destruct Hp as [Hok Hrb HV HVk Hsc Hao HS HSk].
+    - destruct Hp as [Hok Hnps Hnpr Hrb HV HVk Hsc Hao HS HSk].
       assert (Hv : exists vn, nth_error V i = Some vn).
       { destruct (nth_error V i) eqn:E; eauto. apply nth_error_None in E. lia. }
       destruct Hv as (vn & Hvn).
@@ -385,8 +398,9 @@ Section Loop.
       assert (Hvk : keyed vn).
       { rewrite Forall_forall in HVk. apply HVk. eapply nth_error_In; eauto. }
       destruct Hvk as (k & Hk).
-      assert (Hva : n_allof vn = []).
-      { destruct (Hok rb rbn v Hrb (nth_error_In _ _ Hv)) as (cn & Hc1 & Hc2). congruence. }
+      assert (Hva : n_allof vn = [] /\ ~ priv v).
+      { destruct (proj2 Hok rb rbn v Hnpr Hrb (nth_error_In _ _ Hv)) as (cn & Hc1 & Hc2 & Hc3). split; [congruence|exact Hc3]. }
+      destruct Hva as [Hva Hnpv].
       (* the step *)
       cbn [inherit_loop]. unfold inherit_step. rewrite Hrb, Hv, Hgv, Hk, Hsc.
       assert (HS' := HS). unfold cnodes in HS'. rewrite Hsc in HS'.
@@ -399,7 +413,10 @@ Section Loop.
       assert (Hm1 : memo st1 = memo st) by (unfold st1; destruct (n_inh vn); reflexivity).
       assert (Hh1 : heap st1 = heap st) by (unfold st1; destruct (n_inh vn); reflexivity).
       assert (Hok1 : heap_ok st1).
-      { intros a an c Ha Hc. rewrite Hg1 in Ha. destruct (Hok a an c Ha Hc) as (cn & ? & ?). exists cn. rewrite Hg1. auto. }
+      { split.
+        - intros a Ha. rewrite Hh1. apply (proj1 Hok a Ha).
+        - intros a an c Hnpa Ha Hc. rewrite Hg1 in Ha.
+          destruct (proj2 Hok a an c Hnpa Ha Hc) as (cn & ? & ? & ?). exists cn. rewrite Hg1. auto. }
       assert (Hsc1 : get st1 sc = Some scn) by (rewrite Hg1; auto).
       change (update (fst (alloc st1 (set_inh name vn))) sc
                      (set_children scn (snd (alloc st1 (set_inh name vn)) :: n_children scn)))
@@ -409,7 +426,7 @@ Section Loop.
       { intros j n Hj Hgj. apply push_copy_get_other; auto. rewrite Hg1. auto. }
       assert (Hok2 : heap_ok st2).
       { apply push_copy_heap_ok; auto.
-        intros x Hx. simpl in Hx. destruct (Hok v vn x Hgv Hx) as (xn & ? & ?). exists xn. rewrite Hg1. auto. }
+        intros x Hx. simpl in Hx. destruct (proj2 Hok v vn x Hnpv Hgv Hx) as (xn & ? & ? & ?). exists xn. rewrite Hg1. auto. }
       assert (Hsc2 : get st2 sc = Some (set_children scn (List.length (heap st1) :: n_children scn))).
       { apply push_copy_get_sc; auto. }
       assert (HS2 : cnodes st2 sc = Some (set_inh name vn :: Cs)).
@@ -417,11 +434,13 @@ Section Loop.
         unfold cnodes. rewrite Hsc2. cbn [n_children set_children map all_some]. rewrite Hnew.
         assert (all_some (map (get st2) (n_children scn)) = Some Cs) as ->; [|reflexivity].
         rewrite <- HS'. apply all_some_ext. intros c Hc.
-        destruct (Hok sc scn c Hsc Hc) as (cn & Hc1 & Hc2). rewrite Hc1. apply Hfr; auto.
+        destruct (proj2 Hok sc scn c Hnps Hsc Hc) as (cn & Hc1 & Hc2 & _). rewrite Hc1. apply Hfr; auto.
         intros ->. rewrite Hsc in Hc1. injection Hc1 as <-. contradiction. }
       assert (Hp2 : loop_pre st2 rbn V (set_children scn (List.length (heap st1) :: n_children scn)) (set_inh name vn :: Cs)).
       { constructor.
         - exact Hok2.
+        - exact Hnps.
+        - exact Hnpr.
         - apply Hfr; auto.
         - rewrite (cnodes_frame sc scn st st2 rb rbn Hok Hsc Hao Hfr); auto.
         - exact HVk.
@@ -452,7 +471,7 @@ Section Loop.
     inherit_loop u name sc rb cnt st = ROk st.
   Proof.
     induction cnt as [|i IH]; intros st rbn V scn Cs Hp Hlen Hpres; [reflexivity|].
-    assert (Hp' := Hp). destruct Hp as [Hok Hrb HV HVk Hsc Hao HS HSk].
+    assert (Hp' := Hp). destruct Hp as [Hok Hnps Hnpr Hrb HV HVk Hsc Hao HS HSk].
     assert (Hv : exists vn, nth_error V i = Some vn).
     { destruct (nth_error V i) eqn:E; eauto. apply nth_error_None in E. lia. }
     destruct Hv as (vn & Hvn).
@@ -531,11 +550,11 @@ Section Roots.
   Variable types : list (bytes * option id).
   Variable st0 : state.
   Variable H : nat.
-  Variable useroots : list id.
+  Variable isroot : id -> Prop.
   Variable rrank : id -> nat.
 
-  Definition tyroot (b : bytes) (r : id) : Prop := lookup types b = Some (Some r).
-  Definition isroot (r : id) : Prop := (exists b, tyroot b r) \/ In r useroots.
+  (* b names a user type whose schema root is one of the roots *)
+  Definition tyroot (b : bytes) (r : id) : Prop := lookup types b = Some (Some r) /\ isroot r.
 
   Definition contrib (rec : id -> option (list node)) (b : bytes) : option (list node) :=
     match lookup types b with
@@ -602,32 +621,47 @@ Section Roots.
     apply (expected_le d' (max d d')) in Hd'; [|lia]. congruence.
   Qed.
 
+  (* the bases of a root are roots (a base is a user type with plain children) *)
+  Hypothesis base_is_root : forall r n b rb,
+    isroot r -> get st0 r = Some n -> In b (n_allof n) -> lookup types b = Some (Some rb) -> isroot rb.
+
   (* the shape of an expected list *)
   Definition base_contrib (b : bytes) (c : list node) : Prop :=
     exists rb nb Lb, tyroot b rb /\ get st0 rb = Some nb /\ n_tok nb = TObject /\ Ex rb Lb /\
                      c = map (set_inh b) Lb.
 
+  Lemma Forall2_impl_In {A B} (P Q : A -> B -> Prop) l1 l2 :
+    (forall a b, In a l1 -> P a b -> Q a b) -> Forall2 P l1 l2 -> Forall2 Q l1 l2.
+  Proof.
+    intros HPQ HF. induction HF; constructor.
+    - apply HPQ; simpl; auto.
+    - apply IHHF. intros; apply HPQ; simpl; auto.
+  Qed.
+
   Lemma Ex_unfold r L :
+    isroot r ->
     Ex r L -> exists n own cs, get st0 r = Some n /\ cnodes st0 r = Some own /\
                                Forall2 base_contrib (n_allof n) cs /\ L = List.concat cs ++ own.
   Proof.
-    intros [d Hd]. destruct d as [|d]; [discriminate|]. simpl in Hd.
-    destruct (get st0 r) as [n|]; [|discriminate].
+    intros Hr [d Hd]. destruct d as [|d]; [discriminate|]. simpl in Hd.
+    destruct (get st0 r) as [n|] eqn:En; [|discriminate].
     destruct (cnodes st0 r) as [own|]; [|discriminate].
     destruct (all_some (map (contrib (expected d)) (n_allof n))) as [inh|] eqn:Ei; [|discriminate].
     injection Hd as <-. exists n, own, inh. repeat split; auto.
-    apply all_some_map_some in Ei. eapply Forall2_impl'; [|exact Ei].
-    intros b c Hc. unfold contrib in Hc.
+    apply all_some_map_some in Ei. eapply Forall2_impl_In; [|exact Ei].
+    intros b c Hinb Hc. unfold contrib in Hc.
     destruct (lookup types b) as [[rb|]|] eqn:El; try discriminate.
     destruct (get st0 rb) as [nb|] eqn:Eg; try discriminate.
     destruct (tok_eqb (n_tok nb) TObject) eqn:Et; try discriminate.
     destruct (expected d rb) as [lb|] eqn:Eb; [|discriminate].
     injection Hc as <-. exists rb, nb, lb. repeat split; auto.
+    - apply (base_is_root r n b rb); auto.
     - apply tok_eqb_eq. exact Et.
     - exists d. exact Eb.
   Qed.
 
   Hypothesis ok0 : heap_ok st0.
+  Hypothesis roots_np : forall r, isroot r -> ~ priv r.
   Hypothesis names_ne : forall b r, tyroot b r -> b <> [].
   Hypothesis roots0 : forall r, isroot r ->
     exists n own, get st0 r = Some n /\ cnodes st0 r = Some own /\
@@ -638,7 +672,10 @@ Section Roots.
   Hypothesis nodup_ok : forall r n L, isroot r -> get st0 r = Some n -> n_allof n <> [] -> Ex r L -> NoDup (map n_key L).
 
   Lemma tyroot_isroot b r : tyroot b r -> isroot r.
-  Proof. intros Hb. left. exists b. exact Hb. Qed.
+  Proof. intros Hb. exact (proj2 Hb). Qed.
+
+  Lemma tyroot_fun b r r' : tyroot b r -> tyroot b r' -> r = r'.
+  Proof. intros [H1 _] [H2 _]. congruence. Qed.
 
   Lemma pnode_set_inh h st b n : pnode h st n -> pnode h st (set_inh b n).
   Proof. intros [Ha Hc]. split; auto. Qed.
@@ -648,20 +685,20 @@ Section Roots.
     (forall n, get st0 r = Some n -> n_tok n = TObject -> Forall keyed L).
   Proof.
     induction d as [|d IH]; intros r L Hr He; [discriminate|].
-    destruct (Ex_unfold r L (ex_intro _ (S d) He)) as (n & own & cs & Hn & Hown & Hcs & ->).
+    destruct (Ex_unfold r L Hr (ex_intro _ (S d) He)) as (n & own & cs & Hn & Hown & Hcs & ->).
     destruct (roots0 r Hr) as (n' & own' & Hn' & Hown' & Hp & Hi & Hk & Hao).
     rewrite Hn in Hn'. injection Hn' as <-. rewrite Hown in Hown'. injection Hown' as <-.
     simpl in He. rewrite Hn, Hown in He.
     destruct (all_some (map (contrib (expected d)) (n_allof n))) as [inh|] eqn:Ei; [|discriminate].
     assert (Hinh : Forall (fun c => Forall (pnode H st0) c /\ Forall keyed c) inh).
     { apply all_some_map_some in Ei. eapply Forall2_Forall_r; [exact Ei|].
-      intros b c _ Hbc. unfold contrib in Hbc.
+      intros b c Hinb Hbc. unfold contrib in Hbc.
       destruct (lookup types b) as [[rb|]|] eqn:El; try discriminate.
       destruct (get st0 rb) as [nb|] eqn:Eg; try discriminate.
       destruct (tok_eqb (n_tok nb) TObject) eqn:Et; try discriminate.
       destruct (expected d rb) as [lb|] eqn:Eb; [|discriminate].
       injection Hbc as <-.
-      destruct (IH rb lb (tyroot_isroot b rb El) Eb) as [Hp1 Hk1].
+      destruct (IH rb lb (base_is_root r n b rb Hr Hn Hinb El) Eb) as [Hp1 Hk1].
       split.
       - apply Forall_forall. intros x Hx. apply in_map_iff in Hx. destruct Hx as (y & <- & Hy).
         apply pnode_set_inh. rewrite Forall_forall in Hp1. auto.
@@ -719,7 +756,7 @@ Section Roots.
     - intros r' Hr' Hne Hle. change (cnodes st r') with (cnodes (add_memo b st) r').
       apply F; auto; [|lia]. intros ->. lia.
     - intros x rx Hx Hrx. destruct (M x rx Hx Hrx) as [[<-|Hm]|Hm]; auto.
-      + right. unfold tyroot in *. rewrite Hb in Hrx. injection Hrx as <-. lia.
+      + right. rewrite (tyroot_fun _ _ _ Hrx Hb). lia.
       + right. lia.
   Qed.
 
@@ -810,7 +847,7 @@ Section Roots.
             - exact Ok.
             - intros r' Hr' Hlt'. apply R; auto. lia.
             - intros b' rb' [<-|Hin] Hb' Hlt'.
-              + unfold tyroot in *. rewrite Hb in Hb'. injection Hb' as <-. lia.
+              + rewrite (tyroot_fun _ _ _ Hb' Hb) in Hlt'. lia.
               + apply (M b' rb'); auto. lia. }
           assert (Hst : raw (add_memo b st) rb \/ done (add_memo b st) rb).
           { apply (inv_roots _ _ HI rb Hrb Hlt). }
@@ -836,7 +873,7 @@ Section Roots.
               -- right. exists L'. split; auto. congruence.
           + intros b' rb' Hin Hb' Hlt'.
             destruct (eff_memo _ _ _ _ Heff b' rb' Hin Hb') as [[<-|Hm]|Hm].
-            * unfold tyroot in *. rewrite Hb in Hb'. injection Hb' as <-. exact Hd1.
+            * rewrite (tyroot_fun _ _ _ Hb' Hb). exact Hd1.
             * apply (eff_done _ _ _ _ Heff'); [apply (tyroot_isroot b' rb' Hb')|intros ->; lia|].
               apply (inv_memo _ _ HI b' rb'); auto.
             * apply (inv_memo _ _ HI1 b' rb'); auto. }
@@ -848,6 +885,8 @@ Section Roots.
       assert (Hlp : loop_pre r rb st1 rbn1 Lb scn1 Cs).
       { constructor.
         - exact (inv_ok _ _ HI1).
+        - exact (roots_np r Hr).
+        - exact (roots_np rb Hrb).
         - exact Hrbn1.
         - exact HLb1.
         - destruct HLb as [d Hd]. destruct (Ex_nodes d rb Lb Hrb Hd) as [_ Hk]. apply (Hk nb); auto.
@@ -871,7 +910,7 @@ Section Roots.
           apply (cnodes_frame r scn1 st1 st2 r' n'); auto. exact (inv_ok _ _ HI1). congruence.
         - intros x rx Hx _. left. rewrite <- Hm2. exact Hx. }
       split.
-      { unfold inherit. unfold tyroot in Hb. rewrite Hb.
+      { unfold inherit. rewrite (proj1 Hb).
         destruct (ext_any _ _ (inv_ext _ _ HI) rb nb Hnb) as (rbn & Hrbn & _ & Htk & _).
         rewrite Hrbn. rewrite Htk, Htb. simpl. rewrite Hrun1. simpl. rewrite Hrbn1, Hlen. exact Hrun2. }
       split.
@@ -985,7 +1024,7 @@ Section Roots.
       destruct (root_get st r (inv_ext _ _ HI) Hr) as (n0 & scn & Hn0 & Hg & (Hk & Ht & Ha & Hi)).
       destruct (roots0 r Hr) as (n0' & own & Hn0' & Hown & Hpo & Hio & Hko & Hobj).
       rewrite Hn0 in Hn0'. injection Hn0' as <-.
-      destruct (Ex_unfold r L HE) as (n0' & own' & cs & Hn0' & Hown' & Hcs & HLeq).
+      destruct (Ex_unfold r L Hr HE) as (n0' & own' & cs & Hn0' & Hown' & Hcs & HLeq).
       rewrite Hn0 in Hn0'. injection Hn0' as <-. rewrite Hown in Hown'. injection Hown' as <-.
       destruct (status_nodes st r Hr Hst) as (Lc & HLc & HLp & HLk).
       (* the trivial cases: nothing to inherit *)
@@ -993,15 +1032,18 @@ Section Roots.
       { intros Hnil. rewrite Hnil in Hcs. inversion Hcs; subst cs. simpl in HLeq. subst L.
         destruct Hst as [Hraw|Hd]; auto. exists own. split; auto. unfold raw in Hraw. congruence. }
       simpl. rewrite Hg.
+      assert (Hfold : fold_res (fun st1 c => process types u f st1 c) (n_children scn) st = ROk st).
+      { apply (fold_process_plain types u (S H) st (n_children scn) f); [|lia].
+        apply (children_plain st r scn Lc); auto. exact (inv_ext _ _ HI). }
       destruct (tok_eqb (n_tok scn) TObject) eqn:Etok; simpl.
-      2:{ exists st. split; [reflexivity|]. split; [exact HI|]. split; [apply effect_refl|].
-          apply Htriv. destruct (n_allof n0) eqn:E; auto. exfalso.
-          assert (n_tok n0 = TObject) by (apply Hobj; congruence).
-          rewrite Ht in Etok. rewrite H0 in Etok. discriminate. }
+      2:{ assert (Hd : done st r).
+          { apply Htriv. destruct (n_allof n0) eqn:E; auto. exfalso.
+            assert (n_tok n0 = TObject) by (apply Hobj; congruence).
+            rewrite Ht in Etok. rewrite H0 in Etok. discriminate. }
+          exists st. split; [|split; [exact HI|split; [apply effect_refl|exact Hd]]].
+          destruct (negb (tok_eqb (n_tok scn) TArray)); simpl; [reflexivity|]. rewrite Hfold. reflexivity. }
       apply tok_eqb_eq in Etok.
-      rewrite (fold_process_plain types u (S H) st (n_children scn) f).
-      2:{ apply (children_plain st r scn Lc); auto. exact (inv_ext _ _ HI). }
-      2:{ lia. }
+      rewrite Hfold.
       simpl. rewrite Ha.
       destruct (n_allof n0) as [|b0 bs0] eqn:Enames.
       { exists st. split; [reflexivity|]. split; [exact HI|]. split; [apply effect_refl|]. auto. }
@@ -1089,33 +1131,6 @@ Section Roots.
       + apply (inv_memo _ _ HI b rb); auto.
   Qed.
 
-  Lemma run_jobs {X} (job : X -> option (nat * id)) (F : state -> X -> res state) fuel :
-    (forall st x, F st x = match job x with Some (u, r) => process types u fuel st r | None => ROk st end) ->
-    forall l,
-    (forall x u r, In x l -> job x = Some (u, r) ->
-                   isroot r /\ (exists L, Ex r L) /\ rrank r + H + 2 <= fuel) ->
-    forall st, Top st ->
-    exists st', fold_res F l st = ROk st' /\ Top st' /\
-                (forall r', isroot r' -> done st r' -> done st' r') /\
-                (forall x u r, In x l -> job x = Some (u, r) -> done st' r).
-  Proof.
-    intros HF. induction l as [|x l IH]; intros Hall st HT.
-    - exists st. simpl. split; [reflexivity|]. split; [exact HT|]. split; [auto|]. intros ? ? ? [].
-    - simpl. rewrite HF. destruct (job x) as [[u r]|] eqn:Ej.
-      + destruct (Hall x u r (or_introl eq_refl) Ej) as (Hr & (L & HE) & Hf).
-        destruct (process_top u r L fuel st Hr HE Hf HT) as (st1 & Hrun & HT1 & Hd1 & Hm1).
-        rewrite Hrun. simpl.
-        destruct (IH (fun y u' r' Hy => Hall y u' r' (or_intror Hy)) st1 HT1) as (st2 & Hrun2 & HT2 & Hm2 & Hd2).
-        exists st2. split; [exact Hrun2|]. split; [exact HT2|]. split.
-        * intros r' Hr' Hd'. apply Hm2; auto.
-        * intros y u' r' [<-|Hy] Hjy.
-          -- rewrite Ej in Hjy. injection Hjy as <- <-. apply Hm2; auto.
-          -- apply (Hd2 y u' r'); auto.
-      + simpl. destruct (IH (fun y u' r' Hy => Hall y u' r' (or_intror Hy)) st HT) as (st2 & Hrun2 & HT2 & Hm2 & Hd2).
-        exists st2. split; [exact Hrun2|]. split; [exact HT2|]. split; [exact Hm2|].
-        intros y u' r' [<-|Hy] Hjy; [congruence|]. apply (Hd2 y u' r'); auto.
-  Qed.
-
   Lemma In_number_from {A} (l : list A) n x : In x (number_from n l) -> In (snd x) l.
   Proof.
     revert n; induction l as [|a l IH]; simpl; intros n Hx; [destruct Hx|].
@@ -1128,73 +1143,189 @@ Section Roots.
     destruct Ha as [<-|Ha]; [exists n; auto|]. destruct (IH (S n) Ha) as (i & Hi). exists i. auto.
   Qed.
 
-  Hypothesis types_roots : forall name r, In (name, Some r) types -> tyroot name r.
-  Hypothesis all_ex : forall r, isroot r -> exists L, Ex r L.
+  (* ---- skeletons: a schema is walked down through its INNER nodes (objects and arrays without
+     rule, never mutated) to roots (objects with plain children: mutated) and plain subtrees ---- *)
 
-  Theorem process_all_ok fuel (uses : list (ukind * id)) :
-    (forall k r, In (k, r) uses -> In r useroots) ->
-    (forall r, isroot r -> rrank r + H + 2 <= fuel) ->
+  Hypothesis all_ex : forall r, isroot r -> exists L, Ex r L.
+  Variable M : nat.
+  Hypothesis M_ok : forall r, isroot r -> rrank r + H + 2 <= M.
+  Hypothesis M_plain : S H <= M.
+
+  Fixpoint skel (h : nat) (i : id) : Prop :=
+    match h with
+    | O => False
+    | S h' => isroot i \/ plainh (S H) st0 i \/
+              (priv i /\ exists n, get st0 i = Some n /\ n_allof n = [] /\
+                                   (n_tok n = TObject \/ n_tok n = TArray) /\ Forall (skel h') (n_children n))
+    end.
+
+  Fixpoint skeldone (h : nat) (st : state) (i : id) : Prop :=
+    match h with
+    | O => False
+    | S h' => (isroot i /\ done st i) \/ plainh (S H) st0 i \/
+              (priv i /\ exists n, get st0 i = Some n /\ n_allof n = [] /\ Forall (skeldone h' st) (n_children n))
+    end.
+
+  Lemma skel_S h : forall i, skel h i -> skel (S h) i.
+  Proof.
+    induction h as [|h IH]; intros i Hs; [destruct Hs|].
+    destruct Hs as [Hr|[Hp|(Hp & n & Hn & Ha & Ht & Hc)]].
+    - left. exact Hr.
+    - right. left. exact Hp.
+    - right. right. split; auto. exists n. repeat split; auto.
+      eapply Forall_impl; [|exact Hc]. intros c Hcc. apply IH. exact Hcc.
+  Qed.
+
+  Lemma skel_le h h' i : h <= h' -> skel h i -> skel h' i.
+  Proof. induction 1; auto. intros. apply skel_S. auto. Qed.
+
+  Lemma skeldone_mono h : forall st st' i,
+    (forall r, isroot r -> done st r -> done st' r) -> skeldone h st i -> skeldone h st' i.
+  Proof.
+    induction h as [|h IH]; intros st st' i Hm Hs; [destruct Hs|].
+    destruct Hs as [[Hr Hd]|[Hp|(Hp & n & Hn & Ha & Hc)]].
+    - left. split; auto.
+    - right. left. exact Hp.
+    - right. right. split; auto. exists n. repeat split; auto.
+      eapply Forall_impl; [|exact Hc]. intros c Hcc. eapply IH; eauto.
+  Qed.
+
+  Lemma process_skel u h : forall i, skel h i -> forall st fuel, Top st -> M + h <= fuel ->
+    exists st', process types u fuel st i = ROk st' /\ Top st' /\
+                (forall r', isroot r' -> done st r' -> done st' r') /\ skeldone h st' i.
+  Proof.
+    induction h as [|h IH]; intros i Hs st fuel HT Hfuel; [destruct Hs|].
+    destruct Hs as [Hr|[Hp|(Hp & n & Hn & Ha & Htok & Hc)]].
+    - destruct (all_ex i Hr) as (L & HE).
+      destruct (process_top u i L fuel st Hr HE) as (st' & Hrun & HT' & Hd & Hm); auto.
+      { specialize (M_ok i Hr). lia. }
+      exists st'. split; [exact Hrun|]. split; [exact HT'|]. split; [exact Hm|]. cbn [skeldone]. left. split; auto.
+    - exists st. split; [|split; [exact HT|split; [auto|cbn [skeldone]; right; left; exact Hp]]].
+      apply (process_plain types u (S H)); [|lia]. apply (plainh_ext _ st0); auto. exact (top_ext _ HT).
+    - destruct fuel as [|f]; [lia|].
+      assert (Hg : get st i = Some n) by (apply (ext_plain _ _ (top_ext _ HT)); auto).
+      assert (Hkids : forall cs, Forall (skel h) cs -> forall st1, Top st1 ->
+                exists st', fold_res (fun s c => process types u f s c) cs st1 = ROk st' /\ Top st' /\
+                            (forall r', isroot r' -> done st1 r' -> done st' r') /\ Forall (skeldone h st') cs).
+      { induction 1 as [|c cs Hcs _ IHcs]; intros st1 HT1.
+        - exists st1. simpl. split; [reflexivity|]. split; [exact HT1|]. split; auto.
+        - destruct (IH c Hcs st1 f HT1) as (st2 & Hrun2 & HT2 & Hm2 & Hd2); [lia|].
+          destruct (IHcs st2 HT2) as (st3 & Hrun3 & HT3 & Hm3 & Hd3).
+          exists st3. split; [simpl; rewrite Hrun2; simpl; exact Hrun3|]. split; [exact HT3|]. split; [auto|].
+          constructor; auto. eapply skeldone_mono; eauto. }
+      destruct (Hkids (n_children n) Hc st HT) as (st' & Hrun & HT' & Hm & Hd).
+      exists st'. split; [|split; [exact HT'|split; [exact Hm|]]].
+      + simpl. rewrite Hg.
+        assert (negb (tok_eqb (n_tok n) TObject) && negb (tok_eqb (n_tok n) TArray) = false) as ->.
+        { destruct Htok as [->| ->]; reflexivity. }
+        rewrite Hrun. simpl. destruct (negb (tok_eqb (n_tok n) TObject)); [reflexivity|]. rewrite Ha. reflexivity.
+      + cbn [skeldone]. right. right. split; auto. exists n. repeat split; auto.
+  Qed.
+
+  Lemma run_skel_jobs {X} (job : X -> option (nat * id)) (F : state -> X -> res state) fuel h :
+    (forall st x, F st x = match job x with Some (u, r) => process types u fuel st r | None => ROk st end) ->
+    M + h <= fuel ->
+    forall l,
+    (forall x u r, In x l -> job x = Some (u, r) -> skel h r) ->
+    forall st, Top st ->
+    exists st', fold_res F l st = ROk st' /\ Top st' /\
+                (forall r', isroot r' -> done st r' -> done st' r') /\
+                (forall x u r, In x l -> job x = Some (u, r) -> skeldone h st' r).
+  Proof.
+    intros HF Hfuel. induction l as [|x l IH]; intros Hall st HT.
+    - exists st. simpl. split; [reflexivity|]. split; [exact HT|]. split; [auto|]. intros ? ? ? [].
+    - simpl. rewrite HF. destruct (job x) as [[u r]|] eqn:Ej.
+      + destruct (process_skel u h r (Hall x u r (or_introl eq_refl) Ej) st fuel HT Hfuel) as (st1 & Hrun & HT1 & Hm1 & Hd1).
+        rewrite Hrun. simpl.
+        destruct (IH (fun y u' r' Hy => Hall y u' r' (or_intror Hy)) st1 HT1) as (st2 & Hrun2 & HT2 & Hm2 & Hd2).
+        exists st2. split; [exact Hrun2|]. split; [exact HT2|]. split.
+        * intros r' Hr' Hd'. apply Hm2; auto.
+        * intros y u' r' [<-|Hy] Hjy.
+          -- rewrite Ej in Hjy. injection Hjy as <- <-. eapply skeldone_mono; eauto.
+          -- apply (Hd2 y u' r'); auto.
+      + simpl. destruct (IH (fun y u' r' Hy => Hall y u' r' (or_intror Hy)) st HT) as (st2 & Hrun2 & HT2 & Hm2 & Hd2).
+        exists st2. split; [exact Hrun2|]. split; [exact HT2|]. split; [exact Hm2|].
+        intros y u' r' [<-|Hy] Hjy; [congruence|]. apply (Hd2 y u' r'); auto.
+  Qed.
+
+  Theorem process_all_ok fuel h (uses : list (ukind * id)) :
+    (forall name r, In (name, Some r) types -> skel h r) ->
+    (forall k r, In (k, r) uses -> skel h r) ->
+    M + h <= fuel ->
     memo st0 = [] ->
     exists st', process_all fuel types uses st0 = ROk st' /\ Top st' /\
-                (forall name r, In (name, Some r) types -> done st' r) /\
-                (forall k r, In (k, r) uses -> is_rpc k = false -> done st' r).
+                (forall name r, In (name, Some r) types -> skeldone h st' r) /\
+                (forall k r, In (k, r) uses -> skeldone h st' r).
   Proof.
-    intros Huses Hfuel Hm. unfold process_all.
+    intros Htypes Huses Hfuel Hm. unfold process_all.
     (* the user types *)
-    destruct (run_jobs (fun e : nat * (bytes * option id) =>
+    destruct (run_skel_jobs (fun e : nat * (bytes * option id) =>
                           match snd (snd e) with Some r => Some (fst e, r) | None => None end)
                        (fun st1 (e : nat * (bytes * option id)) =>
                           match snd (snd e) with
                           | None => ROk st1
                           | Some r => process types (fst e) fuel st1 r
-                          end) fuel) with (l := number_from 0 types) (st := st0)
-      as (st1 & Hrun1 & HT1 & Hm1 & Hd1).
+                          end) fuel h) with (l := number_from 0 types) (st := st0)
+      as (st1 & Hrun1 & HT1 & Hm1 & Hd1); auto.
     { intros st x. destruct (snd (snd x)); reflexivity. }
     { intros x u r Hx Hj. destruct x as [i [name o]]. simpl in Hj. destruct o as [r'|]; [|discriminate].
-      injection Hj as <- <-. apply In_number_from in Hx. simpl in Hx.
-      assert (Hr : isroot r') by (apply (tyroot_isroot name r'); apply types_roots; auto).
-      repeat split; auto. }
+      injection Hj as <- <-. apply In_number_from in Hx. simpl in Hx. eapply Htypes; eauto. }
     { apply Top_st0. exact Hm. }
-    unfold process_types. rewrite Hrun1. simpl.
+    unfold process_types. rewrite Hrun1. cbn [rbind].
     (* the phases *)
     assert (Hph : forall ks st, Top st ->
               exists st', fold_res (process_phase fuel types (number_from (List.length types) uses)) ks st = ROk st' /\
                           Top st' /\ (forall r', isroot r' -> done st r' -> done st' r') /\
-                          (forall k r, In k ks -> In (k, r) uses -> done st' r)).
+                          (forall k r, In k ks -> In (k, r) uses -> skeldone h st' r)).
     { induction ks as [|k ks IH]; intros st HT.
       - exists st. simpl. split; [reflexivity|]. split; [exact HT|]. split; [auto|]. intros ? ? [].
       - simpl. unfold process_phase at 1.
-        destruct (run_jobs (fun e : nat * (ukind * id) =>
+        destruct (run_skel_jobs (fun e : nat * (ukind * id) =>
                               if ukind_eqb (fst (snd e)) k then Some (fst e, snd (snd e)) else None)
                            (fun st1 (e : nat * (ukind * id)) =>
                               if ukind_eqb (fst (snd e)) k then process types (fst e) fuel st1 (snd (snd e)) else ROk st1)
-                           fuel) with (l := number_from (List.length types) uses) (st := st)
+                           fuel h) with (l := number_from (List.length types) uses) (st := st)
           as (st2 & Hrun2 & HT2 & Hm2 & Hd2); auto.
         { intros st' x. destruct (ukind_eqb (fst (snd x)) k); reflexivity. }
         { intros x u r Hx Hj. destruct x as [i [k' r']]. simpl in Hj.
           destruct (ukind_eqb k' k); [|discriminate]. injection Hj as <- <-.
-          apply In_number_from in Hx. simpl in Hx.
-          assert (Hr : isroot r') by (right; eapply Huses; eauto).
-          repeat split; auto. }
+          apply In_number_from in Hx. simpl in Hx. eapply Huses; eauto. }
         rewrite Hrun2. simpl.
         destruct (IH st2 HT2) as (st3 & Hrun3 & HT3 & Hm3 & Hd3).
         exists st3. split; [exact Hrun3|]. split; [exact HT3|]. split.
         + intros r' Hr' Hd'. apply Hm3; auto.
         + intros k' r [Hk|Hk] Hin.
           * subst k'. destruct (In_number_from' uses (List.length types) (k, r) Hin) as (i & Hi).
-            apply Hm3; [right; eapply Huses; eauto|].
+            apply (skeldone_mono h st2 st3); auto.
             apply (Hd2 (i, (k, r)) i r Hi). simpl.
             assert (ukind_eqb k k = true) as -> by (destruct k; reflexivity). reflexivity.
           * apply (Hd3 k' r); auto. }
     destruct (Hph phases st1 HT1) as (st2 & Hrun2 & HT2 & Hm2 & Hd2).
-    exists st2. split; [exact Hrun2|]. split; [exact HT2|]. split.
+    rewrite Hrun2. cbn [rbind].
+    (* the JSON-RPC pass *)
+    unfold process_rpc.
+    destruct (run_skel_jobs (fun e : nat * (ukind * id) =>
+                          if is_rpc (fst (snd e)) then Some (fst e, snd (snd e)) else None)
+                       (fun st1 (e : nat * (ukind * id)) =>
+                          if is_rpc (fst (snd e)) then process types (fst e) fuel st1 (snd (snd e)) else ROk st1)
+                       fuel h) with (l := number_from (List.length types) uses) (st := st2)
+      as (st3 & Hrun3 & HT3 & Hm3 & Hd3); auto.
+    { intros st' x. destruct (is_rpc (fst (snd x))); reflexivity. }
+    { intros x u r Hx Hj. destruct x as [i [k' r']]. simpl in Hj.
+      destruct (is_rpc k'); [|discriminate]. injection Hj as <- <-.
+      apply In_number_from in Hx. simpl in Hx. eapply Huses; eauto. }
+    exists st3. split; [exact Hrun3|]. split; [exact HT3|]. split.
     - intros name r Hin. destruct (In_number_from' types 0 (name, Some r) Hin) as (i & Hi).
-      apply Hm2; [apply (tyroot_isroot name r); apply types_roots; auto|].
+      apply (skeldone_mono h st2 st3); auto. apply (skeldone_mono h st1 st2); auto.
       apply (Hd1 (i, (name, Some r)) i r Hi). reflexivity.
-    - intros k r Hin Hrpc. apply (Hd2 k r); auto.
-      unfold phases. destruct k; simpl in *; try discriminate; auto 10.
+    - intros k r Hin. destruct (is_rpc k) eqn:Erpc.
+      + destruct (In_number_from' uses (List.length types) (k, r) Hin) as (i & Hi).
+        apply (Hd3 (i, (k, r)) i r Hi). simpl. rewrite Erpc. reflexivity.
+      + apply (skeldone_mono h st2 st3); auto. apply (Hd2 k r); auto.
+        unfold phases. destruct k; simpl in *; try discriminate; auto 10.
   Qed.
 End Roots.
+End Priv.
 
 
 (* ------------------------------------------------------------------------------------- *)
@@ -1286,29 +1417,10 @@ Proof.
   constructor. rewrite forallb_forall in Ht. apply Forall_forall. intros kc Hkc. apply IH. auto.
 Qed.
 
-Definition hok (hp : list node) : Prop :=
-  forall i n c, nth_error hp i = Some n -> In c (n_children n) ->
-                exists cn, nth_error hp c = Some cn /\ n_allof cn = [].
-
-Lemma hok_heap_ok st : hok (heap st) -> heap_ok st.
-Proof. intros Hk i n c. apply Hk. Qed.
-
 Lemma shape_root_node hp i key t :
   shape hp i key t -> exists n, nth_error hp i = Some n /\ n_key n = key /\ n_inh n = [] /\
                                 match t with Tree tk ao _ => n_tok n = tk /\ n_allof n = ao end.
 Proof. intros Hs. inversion Hs; subst. eexists. split; [eassumption|]. simpl. auto. Qed.
-
-(* building a tree whose children are plain keeps the heap well-formed *)
-Lemma build_hok_kids : forall kids,
-  Forall (fun kc => tplain (snd kc)) kids ->
-  Forall (fun kc => forall h key, hok h -> tplain (snd kc) -> hok (fst (build_tree h key (snd kc)))) kids ->
-  forall h, hok h -> hok (fst (build_kids h kids)).
-Proof.
-  induction kids as [|[k c] r IHr]; intros Hp HP h Hh; [exact Hh|].
-  rewrite build_kids_cons. inversion Hp; subst. inversion HP; subst. simpl in *.
-  specialize (H3 h k Hh H1). destruct (build_tree h k c) as [h1 i]. simpl in H3.
-  specialize (IHr H2 H4 h1 H3). destruct (build_kids h1 r) as [h2 is]. exact IHr.
-Qed.
 
 Lemma shape_kids_plain_nodes h ids kids :
   Forall2 (fun c kc => shape h c (fst kc) (snd kc)) ids kids ->
@@ -1320,22 +1432,6 @@ Proof.
   destruct (shape_root_node h c0 (fst kc) (snd kc) Hs0) as (cn & Hcn & _ & _ & Hf).
   exists cn. split; auto.
   destruct (snd kc) as [tk' ao' kids']. inversion H1; subst. tauto.
-Qed.
-
-Lemma build_hok_node h ids kids key tk ao :
-  hok h -> Forall2 (fun c kc => shape h c (fst kc) (snd kc)) ids kids ->
-  Forall (fun kc => tplain (snd kc)) kids ->
-  hok (h ++ [{| n_key := key; n_tok := tk; n_allof := ao; n_children := ids; n_inh := [] |}]).
-Proof.
-  intros Hh Hs Hp i n c Hn Hc.
-  destruct (Nat.lt_ge_cases i (List.length h)) as [Hlt|Hge].
-  - rewrite nth_error_app1 in Hn; auto. destruct (Hh i n c Hn Hc) as (cn & H1 & H2).
-    exists cn. split; auto. rewrite nth_error_app1; auto. apply nth_error_Some. congruence.
-  - rewrite nth_error_app2 in Hn; auto.
-    destruct (i - List.length h) as [|j] eqn:Ej; simpl in Hn; [|destruct j; discriminate].
-    injection Hn as <-. simpl in Hc.
-    destruct (shape_kids_plain_nodes h ids kids Hs Hp c Hc) as (cn & Hcn & Ha).
-    exists cn. split; auto. rewrite nth_error_app1; auto. apply nth_error_Some. congruence.
 Qed.
 
 Lemma build_kids_shape h kids :
@@ -1352,18 +1448,6 @@ Proof.
     + constructor; auto. apply shape_app. exact Hs1.
 Qed.
 
-Lemma build_hok_plain : forall t h key, hok h -> tplain t -> hok (fst (build_tree h key t)).
-Proof.
-  induction t as [tk ao kids IH] using tree_ind'. intros h key Hh Hp.
-  inversion Hp as [tk' kids' Hpk]; subst. rewrite build_eq.
-  assert (Hk := build_hok_kids kids Hpk).
-  assert (HP : Forall (fun kc => forall h key, hok h -> tplain (snd kc) -> hok (fst (build_tree h key (snd kc)))) kids).
-  { eapply Forall_impl; [|exact IH]. intros kc Hkc. exact Hkc. }
-  specialize (Hk HP h Hh). destruct (build_kids_shape h kids) as (_ & Hs).
-  destruct (build_kids h kids) as [h1 ids]. simpl in *.
-  apply build_hok_node with (kids := kids); auto.
-Qed.
-
 (* a schema root: its children are plain *)
 Definition troot (t : tree) : Prop := match t with Tree _ _ kids => Forall (fun kc => tplain (snd kc)) kids end.
 
@@ -1372,17 +1456,6 @@ Proof.
   destruct t as [tk ao kids]. intros Hr. lazy beta iota delta [root_level] in Hr.
   rewrite forallb_forall in Hr. unfold troot.
   apply Forall_forall. intros kc Hkc. apply (tree_plain_tplain (S (tree_size (snd kc)))). apply Hr. exact Hkc.
-Qed.
-
-Lemma build_hok_root t h key : hok h -> troot t -> hok (fst (build_tree h key t)).
-Proof.
-  destruct t as [tk ao kids]. intros Hh Hp. simpl in Hp. rewrite build_eq.
-  assert (Hk := build_hok_kids kids Hp).
-  assert (HP : Forall (fun kc => forall h key, hok h -> tplain (snd kc) -> hok (fst (build_tree h key (snd kc)))) kids).
-  { apply Forall_forall. intros kc _ h0 k0. apply build_hok_plain. }
-  specialize (Hk HP h Hh). destruct (build_kids_shape h kids) as (_ & Hs).
-  destruct (build_kids h kids) as [h1 ids]. simpl in *.
-  apply build_hok_node with (kids := kids); auto.
 Qed.
 
 Definition tymatch (hp : list node) (a : bytes * option tree) (b : bytes * option id) : Prop :=
@@ -1401,47 +1474,48 @@ Proof.
   intros [Hk Hm]. split; auto. destruct (snd a), (snd b); auto. apply shape_app. exact Hm.
 Qed.
 
-Lemma build_types_spec : forall ts h,
-  hok h -> (forall n t, In (n, Some t) ts -> troot t) ->
-  (exists x, fst (build_types h ts) = h ++ x) /\ hok (fst (build_types h ts)) /\
+(* shapes of the initial heap, for ANY project *)
+Lemma build_types_shape : forall ts h,
+  (exists x, fst (build_types h ts) = h ++ x) /\
   Forall2 (tymatch (fst (build_types h ts))) ts (snd (build_types h ts)).
 Proof.
-  induction ts as [|[name o] ts IH]; intros h Hh Hr.
-  - simpl. split; [exists []; rewrite app_nil_r; reflexivity|]. split; [exact Hh|constructor].
+  induction ts as [|[name o] ts IH]; intros h.
+  - simpl. split; [exists []; rewrite app_nil_r; reflexivity|constructor].
   - simpl. destruct o as [t|].
-    + assert (Ht : troot t) by (apply (Hr name t); simpl; auto).
-      destruct (build_shape t h None) as ((x1 & Hx1) & Hs1).
-      assert (Hh1 := build_hok_root t h None Hh Ht).
-      destruct (build_tree h None t) as [h1 i]. simpl in Hx1, Hs1, Hh1.
-      destruct (IH h1 Hh1) as ((x2 & Hx2) & Hh2 & Hf2).
-      { intros n' t' Hin. apply (Hr n' t'). simpl. auto. }
+    + destruct (build_shape t h None) as ((x1 & Hx1) & Hs1).
+      destruct (build_tree h None t) as [h1 i]. simpl in Hx1, Hs1.
+      destruct (IH h1) as ((x2 & Hx2) & Hf2).
       destruct (build_types h1 ts) as [h2 out]. simpl in *. subst h1 h2.
-      split; [exists (x1 ++ x2); rewrite app_assoc; reflexivity|]. split; [exact Hh2|].
+      split; [exists (x1 ++ x2); rewrite app_assoc; reflexivity|].
       constructor; auto. split; simpl; auto. apply shape_app. exact Hs1.
-    + destruct (IH h Hh) as ((x2 & Hx2) & Hh2 & Hf2).
-      { intros n' t' Hin. apply (Hr n' t'). simpl. auto. }
+    + destruct (IH h) as ((x2 & Hx2) & Hf2).
       destruct (build_types h ts) as [h2 out]. simpl in *.
-      split; [exists x2; exact Hx2|]. split; [exact Hh2|].
-      constructor; auto. split; simpl; auto.
+      split; [exists x2; exact Hx2|]. constructor; auto. split; simpl; auto.
 Qed.
 
-Lemma build_uses_spec : forall us h,
-  hok h -> (forall k t, In (k, t) us -> troot t) ->
-  (exists x, fst (build_uses h us) = h ++ x) /\ hok (fst (build_uses h us)) /\
+Lemma build_uses_shape : forall us h,
+  (exists x, fst (build_uses h us) = h ++ x) /\
   Forall2 (usematch (fst (build_uses h us))) us (snd (build_uses h us)).
 Proof.
-  induction us as [|[k t] us IH]; intros h Hh Hr.
-  - simpl. split; [exists []; rewrite app_nil_r; reflexivity|]. split; [exact Hh|constructor].
-  - simpl.
-    assert (Ht : troot t) by (apply (Hr k t); simpl; auto).
-    destruct (build_shape t h None) as ((x1 & Hx1) & Hs1).
-    assert (Hh1 := build_hok_root t h None Hh Ht).
-    destruct (build_tree h None t) as [h1 i]. simpl in Hx1, Hs1, Hh1.
-    destruct (IH h1 Hh1) as ((x2 & Hx2) & Hh2 & Hf2).
-    { intros k' t' Hin. apply (Hr k' t'). simpl. auto. }
+  induction us as [|[k t] us IH]; intros h.
+  - simpl. split; [exists []; rewrite app_nil_r; reflexivity|constructor].
+  - simpl. destruct (build_shape t h None) as ((x1 & Hx1) & Hs1).
+    destruct (build_tree h None t) as [h1 i]. simpl in Hx1, Hs1.
+    destruct (IH h1) as ((x2 & Hx2) & Hf2).
     destruct (build_uses h1 us) as [h2 out]. simpl in *. subst h1 h2.
-    split; [exists (x1 ++ x2); rewrite app_assoc; reflexivity|]. split; [exact Hh2|].
+    split; [exists (x1 ++ x2); rewrite app_assoc; reflexivity|].
     constructor; auto. split; simpl; auto. apply shape_app. exact Hs1.
+Qed.
+
+Lemma init_shapes e :
+  Forall2 (tymatch (heap (w_state (init_world e)))) (e_types e) (w_types (init_world e)) /\
+  Forall2 (usematch (heap (w_state (init_world e)))) (e_uses e) (w_uses (init_world e)).
+Proof.
+  unfold init_world. destruct (build_types_shape (e_types e) []) as ((x1 & Hx1) & Hf1).
+  destruct (build_types [] (e_types e)) as [h1 ts]. simpl in Hx1, Hf1.
+  destruct (build_uses_shape (e_uses e) h1) as ((x2 & Hx2) & Hf2).
+  destruct (build_uses h1 (e_uses e)) as [h2 us]. simpl in *. subst h2. split; auto.
+  eapply Forall2_impl'; [|exact Hf1]. intros a b Hab. apply tymatch_app. exact Hab.
 Qed.
 
 Lemma lookup_match hp tys ts b :
@@ -1548,6 +1622,222 @@ Proof.
   - inversion IH; subst. inversion Hpk; subst. apply IHk; auto. intros; apply Hsz; simpl; auto.
 Qed.
 
+(* ------------------------------------------------------------------------------------- *)
+(* skeleton schemas: inner nodes, and the well-formedness of the initial heap *)
+
+Definition stof (hp : list node) : state := {| heap := hp; memo := []; ulog := [] |}.
+
+Lemma plainh_heap_eq h : forall st st' i, heap st = heap st' -> plainh h st i -> plainh h st' i.
+Proof.
+  induction h as [|h IH]; intros st st' i He Hp; [destruct Hp|].
+  destruct Hp as (n & Hg & Ha & Hc). exists n. unfold get in *. rewrite <- He. repeat split; auto.
+  eapply Forall_impl; [|exact Hc]. intros c Hcc. eapply IH; eauto.
+Qed.
+
+Fixpoint plainb (h : nat) (hp : list node) (i : id) : bool :=
+  match h with
+  | O => false
+  | S h' =>
+    match nth_error hp i with
+    | Some n => match n_allof n with [] => forallb (plainb h' hp) (n_children n) | _ => false end
+    | None => false
+    end
+  end.
+
+Lemma plainb_plainh h : forall st i, plainb h (heap st) i = true <-> plainh h st i.
+Proof.
+  induction h as [|h IH]; intros st i; simpl; [split; [discriminate|tauto]|].
+  unfold get. destruct (nth_error (heap st) i) as [n|]; [|split; [discriminate|intros (n & Hn & _); discriminate]].
+  destruct (n_allof n) eqn:Ea.
+  - rewrite forallb_forall. split.
+    + intros Hf. exists n. repeat split; auto. apply Forall_forall. intros c Hc. apply IH. auto.
+    + intros (n' & Hn' & _ & Hc). injection Hn' as <-. intros c Hin. apply IH. rewrite Forall_forall in Hc. auto.
+  - split; [discriminate|]. intros (n' & Hn' & Ha' & _). injection Hn' as <-. congruence.
+Qed.
+
+(* the inner nodes of height class K: no rule of their own, but not plain *)
+Definition privK (K : nat) (hp : list node) (i : id) : Prop :=
+  exists n, nth_error hp i = Some n /\ n_allof n = [] /\ plainb K hp i = false.
+
+(* every node with an allOf rule has plain children *)
+Definition aokl (K : nat) (hp : list node) : Prop :=
+  forall i n, nth_error hp i = Some n -> n_allof n <> [] -> Forall (plainh K (stof hp)) (n_children n).
+
+Lemma aokl_heap_ok K st : aokl K (heap st) -> heap_ok (privK K (heap st)) st.
+Proof.
+  intros Ha. split.
+  - intros i (n & Hn & _). apply nth_error_Some. congruence.
+  - intros i n c Hnp Hg Hc.
+    assert (Hchild : plainh K st c -> exists cn, get st c = Some cn /\ n_allof cn = [] /\ ~ privK K (heap st) c).
+    { intros Hp. assert (Hp' := Hp). destruct K as [|K']; [destruct Hp|]. destruct Hp as (cn & Hcn & Hca & _).
+      exists cn. repeat split; auto. intros (cn' & _ & _ & Hb).
+      apply (plainb_plainh (S K') st c) in Hp'. congruence. }
+    destruct (n_allof n) eqn:Ea.
+    + destruct (plainb K (heap st) i) eqn:Eb.
+      * apply plainb_plainh in Eb. destruct K as [|K']; [destruct Eb|].
+        destruct Eb as (n' & Hn' & _ & Hcs). rewrite Hg in Hn'. injection Hn' as <-.
+        rewrite Forall_forall in Hcs. apply Hchild. apply plainh_S. auto.
+      * exfalso. apply Hnp. exists n. repeat split; auto.
+    + apply Hchild. assert (Hf := Ha i n Hg). rewrite Ea in Hf. specialize (Hf ltac:(discriminate)).
+      rewrite Forall_forall in Hf. apply (plainh_heap_eq K (stof (heap st))); auto.
+Qed.
+
+Lemma ext_app hp x : ext (stof hp) (stof (hp ++ x)).
+Proof.
+  split.
+  - intros i n Hg _. unfold get in *. simpl in *. rewrite nth_error_app1; auto. apply nth_error_Some. congruence.
+  - intros i n Hg. exists n. unfold get in *. simpl in *. rewrite nth_error_app1; [|apply nth_error_Some; congruence].
+    repeat split; auto.
+Qed.
+
+Lemma aokl_app_plain K hp x : aokl K hp -> Forall (fun n => n_allof n = []) x -> aokl K (hp ++ x).
+Proof.
+  intros Ha Hx i n Hn Hao. destruct (Nat.lt_ge_cases i (List.length hp)) as [Hlt|Hge].
+  - rewrite nth_error_app1 in Hn; auto. eapply Forall_impl; [|exact (Ha i n Hn Hao)].
+    intros c Hc. eapply plainh_ext; [apply ext_app|exact Hc].
+  - rewrite nth_error_app2 in Hn; auto. apply nth_error_In in Hn. rewrite Forall_forall in Hx.
+    exfalso. apply Hao. auto.
+Qed.
+
+Lemma build_plain_app : forall t h key, tplain t ->
+  exists x, fst (build_tree h key t) = h ++ x /\ Forall (fun n => n_allof n = []) x.
+Proof.
+  induction t as [tk ao kids IH] using tree_ind'. intros h key Hp. inversion Hp as [tk' kids' Hpk]; subst.
+  rewrite build_eq.
+  assert (Hk : forall h0, exists x, fst (build_kids h0 kids) = h0 ++ x /\ Forall (fun n => n_allof n = []) x).
+  { clear Hp. induction IH as [|[k c] r Hc _ IHr]; intros h0.
+    - exists []. simpl. rewrite app_nil_r. auto.
+    - rewrite build_kids_cons. inversion Hpk; subst. simpl in *.
+      destruct (Hc h0 k H1) as (x1 & Hx1 & Hf1). destruct (build_tree h0 k c) as [h1 i]. simpl in Hx1. subst h1.
+      destruct (IHr H2 (h0 ++ x1)) as (x2 & Hx2 & Hf2). destruct (build_kids (h0 ++ x1) r) as [h2 is]. simpl in *. subst h2.
+      exists (x1 ++ x2). rewrite app_assoc. split; auto. apply Forall_app; auto. }
+  destruct (Hk h) as (x & Hx & Hf). destruct (build_kids h kids) as [h1 ids]. simpl in *. subst h1.
+  eexists. rewrite <- app_assoc. split; [reflexivity|]. apply Forall_app; split; auto.
+Qed.
+
+Inductive tskel : tree -> Prop :=
+| tskel_rule tk a ao kids : Forall (fun kc => tplain (snd kc)) kids -> tskel (Tree tk (a :: ao) kids)
+| tskel_inner tk kids : Forall (fun kc => tskel (snd kc)) kids -> tskel (Tree tk [] kids).
+
+Lemma tree_skel_tskel : forall f t, tree_skel f t = true -> tskel t.
+Proof.
+  induction f as [|f IH]; intros t Ht; [discriminate|].
+  destruct t as [tk ao kids]. cbn [tree_skel] in Ht. destruct ao as [|a ao].
+  - apply tskel_inner. rewrite forallb_forall in Ht. apply Forall_forall. intros kc Hkc. apply IH. apply Ht. exact Hkc.
+  - apply tskel_rule. rewrite forallb_forall in Ht. apply Forall_forall. intros kc Hkc.
+    apply (tree_plain_tplain (S (tree_size (snd kc)))). apply Ht. exact Hkc.
+Qed.
+
+Lemma tplain_tskel : forall t, tplain t -> tskel t.
+Proof.
+  induction t as [tk ao kids IH] using tree_ind'. intros Hp. inversion Hp as [tk' kids' Hpk]; subst.
+  apply tskel_inner. rewrite Forall_forall in *. auto.
+Qed.
+
+Lemma shape_kids_plainh K st ids kids :
+  Forall2 (fun c kc => shape (heap st) c (fst kc) (snd kc)) ids kids ->
+  Forall (fun kc => tplain (snd kc)) kids ->
+  (forall kc, In kc kids -> tree_size (snd kc) <= K) ->
+  Forall (plainh K st) ids.
+Proof.
+  induction 1 as [|c kc ids kids Hc _ IHs]; intros Hpk Hsz; constructor.
+  - inversion Hpk; subst. apply (plainh_le (tree_size (snd kc))); [apply Hsz; simpl; auto|].
+    apply (shape_plainh (snd kc) st c (fst kc)); auto.
+  - inversion Hpk; subst. apply IHs; auto. intros; apply Hsz; simpl; auto.
+Qed.
+
+Lemma build_aokl K : forall t, tskel t -> tree_size t <= K -> forall h key, aokl K h -> aokl K (fst (build_tree h key t)).
+Proof.
+  induction t as [tk ao kids IH] using tree_ind'. intros Hs Hsz h key Ha. rewrite tree_size_eq in Hsz.
+  rewrite build_eq. inversion Hs as [tk' a ao' kids' Hpk|tk' kids' Hsk]; subst.
+  - (* an object with a rule: the children are plain *)
+    assert (Hk : forall kids0 h0, Forall (fun kc => tplain (snd kc)) kids0 ->
+              exists x, fst (build_kids h0 kids0) = h0 ++ x /\ Forall (fun n => n_allof n = []) x).
+    { induction kids0 as [|[k c] r IHr]; intros h0 Hp0.
+      - exists []. simpl. rewrite app_nil_r. auto.
+      - rewrite build_kids_cons. inversion Hp0; subst. simpl in *.
+        destruct (build_plain_app c h0 k H1) as (x1 & Hx1 & Hf1). destruct (build_tree h0 k c) as [h1 i]. simpl in Hx1. subst h1.
+        destruct (IHr (h0 ++ x1) H2) as (x2 & Hx2 & Hf2). destruct (build_kids (h0 ++ x1) r) as [h2 is]. simpl in *. subst h2.
+        exists (x1 ++ x2). rewrite app_assoc. split; auto. apply Forall_app; auto. }
+    destruct (Hk kids h Hpk) as (x & Hx & Hf). destruct (build_kids_shape h kids) as (_ & Hsh).
+    destruct (build_kids h kids) as [h1 ids]. simpl in *. subst h1.
+    assert (Ha1 := aokl_app_plain K h x Ha Hf).
+    intros i n Hn Hao. destruct (Nat.lt_ge_cases i (List.length (h ++ x))) as [Hlt|Hge].
+    + rewrite nth_error_app1 in Hn; auto. eapply Forall_impl; [|exact (Ha1 i n Hn Hao)].
+      intros c Hc. eapply plainh_ext; [apply ext_app|exact Hc].
+    + rewrite nth_error_app2 in Hn; auto.
+      destruct (i - List.length (h ++ x)) as [|j]; simpl in Hn; [|destruct j; discriminate].
+      injection Hn as <-. simpl.
+      assert (Hsz' : forall kc, In kc kids -> tree_size (snd kc) <= K).
+      { intros kc Hin. apply kids_size_In in Hin. lia. }
+      eapply Forall_impl; [|exact (shape_kids_plainh K (stof (h ++ x)) ids kids Hsh Hpk Hsz')].
+      intros c Hc. eapply plainh_ext; [apply ext_app|exact Hc].
+  - (* an inner node: the children are skeletons *)
+    assert (Hk : forall h0, aokl K h0 -> aokl K (fst (build_kids h0 kids))).
+    { assert (Hsz' : forall kc, In kc kids -> tree_size (snd kc) <= K).
+      { intros kc Hin. apply kids_size_In in Hin. lia. }
+      clear Hs Hsz. revert Hsk Hsz'. induction IH as [|[k c] r Hc _ IHr]; intros Hsk Hsz' h0 Ha0; [exact Ha0|].
+      rewrite build_kids_cons. inversion Hsk; subst. simpl in *.
+      assert (Ha1 : aokl K (fst (build_tree h0 k c))) by (apply Hc; auto; apply (Hsz' (k, c)); auto).
+      destruct (build_tree h0 k c) as [h1 i]. simpl in Ha1.
+      specialize (IHr H2 (fun kc Hin => Hsz' kc (or_intror Hin)) h1 Ha1).
+      destruct (build_kids h1 r) as [h2 is]. exact IHr. }
+    specialize (Hk h Ha). destruct (build_kids h kids) as [h1 ids]. simpl in *.
+    apply aokl_app_plain; auto.
+Qed.
+
+Lemma build_types_aokl K : forall ts h,
+  aokl K h -> (forall n t, In (n, Some t) ts -> tskel t /\ tree_size t <= K) -> aokl K (fst (build_types h ts)).
+Proof.
+  induction ts as [|[name o] ts IH]; intros h Ha Hr; [exact Ha|].
+  simpl. destruct o as [t|].
+  - destruct (Hr name t (or_introl eq_refl)) as [Hs Hsz].
+    assert (Ha1 := build_aokl K t Hs Hsz h None Ha). destruct (build_tree h None t) as [h1 i]. simpl in Ha1.
+    specialize (IH h1 Ha1 (fun n' t' Hin => Hr n' t' (or_intror Hin))).
+    destruct (build_types h1 ts) as [h2 out]. exact IH.
+  - specialize (IH h Ha (fun n' t' Hin => Hr n' t' (or_intror Hin))).
+    destruct (build_types h ts) as [h2 out]. exact IH.
+Qed.
+
+Lemma build_uses_aokl K : forall us h,
+  aokl K h -> (forall k t, In (k, t) us -> tskel t /\ tree_size t <= K) -> aokl K (fst (build_uses h us)).
+Proof.
+  induction us as [|[k t] us IH]; intros h Ha Hr; [exact Ha|].
+  simpl. destruct (Hr k t (or_introl eq_refl)) as [Hs Hsz].
+  assert (Ha1 := build_aokl K t Hs Hsz h None Ha). destruct (build_tree h None t) as [h1 i]. simpl in Ha1.
+  specialize (IH h1 Ha1 (fun k' t' Hin => Hr k' t' (or_intror Hin))).
+  destruct (build_uses h1 us) as [h2 out]. exact IH.
+Qed.
+
+(* a node that is plain in the heap was built from a plain tree *)
+Lemma shape_plain_conv : forall t st i key h, shape (heap st) i key t -> plainh h st i -> tplain t.
+Proof.
+  induction t as [tk ao kids IH] using tree_ind'. intros st i key h Hs Hp.
+  destruct h as [|h]; [destruct Hp|]. destruct Hp as (n & Hg & Ha & Hc).
+  inversion Hs as [i' key' tk' ao' kids' ids Hn Hk]; subst. unfold get in Hg. rewrite Hn in Hg. injection Hg as <-.
+  simpl in Ha, Hc. subst ao. constructor.
+  clear Hn Hs. revert Hc. induction Hk as [|c kc ids kids Hck _ IHk]; intros Hc; constructor.
+  - inversion IH; subst. inversion Hc; subst. eapply H1; eauto.
+  - inversion IH; subst. inversion Hc; subst. apply IHk; auto.
+Qed.
+
+Lemma Forall_dec' {A} (P : A -> Prop) l : Forall (fun x => P x \/ ~ P x) l -> Forall P l \/ ~ Forall P l.
+Proof.
+  induction 1 as [|x l [Hx|Hx] _ [IH|IH]]; auto.
+  - right. intros Hf. inversion Hf; auto.
+  - right. intros Hf. inversion Hf; auto.
+  - right. intros Hf. inversion Hf; auto.
+Qed.
+
+Lemma tplain_dec : forall t, tplain t \/ ~ tplain t.
+Proof.
+  induction t as [tk ao kids IH] using tree_ind'.
+  destruct ao as [|a ao]; [|right; intros Hp; inversion Hp].
+  destruct (Forall_dec' (fun kc => tplain (snd kc)) kids IH) as [Hf|Hf].
+  - left. constructor. exact Hf.
+  - right. intros Hp. inversion Hp. auto.
+Qed.
+
 Section Spec.
   Variable tys : list (bytes * option tree).
 
@@ -1609,8 +1899,11 @@ Section Bridge.
   Variable ts : list (bytes * option id).
   Variable st0 : state.
   Variable F : nat.
+  Variable isbase : bytes -> Prop.
   Hypothesis Hmatch : Forall2 (tymatch (heap st0)) tys ts.
-  Hypothesis Htroot : forall n t, In (n, Some t) tys -> troot t.
+  Hypothesis Htroot : forall b t, isbase b -> lookup tys b = Some (Some t) -> troot t.
+  Hypothesis Hclosed : forall b tk ao kids b', isbase b -> lookup tys b = Some (Some (Tree tk ao kids)) ->
+                                               In b' ao -> isbase b'.
   Hypothesis Hsize : forall n t, In (n, Some t) tys -> tree_size t <= S F.
 
   Lemma kid_facts ids kids :
@@ -1650,10 +1943,10 @@ Section Bridge.
         rewrite render_S in Hr. unfold get in Hr. rewrite Hn in Hr. rewrite Hr. reflexivity.
   Qed.
 
-  Lemma root_facts r tk ao kids :
-    shape (heap st0) r None (Tree tk ao kids) -> troot (Tree tk ao kids) -> tree_size (Tree tk ao kids) <= S F ->
+  Lemma root_facts r key tk ao kids :
+    shape (heap st0) r key (Tree tk ao kids) -> troot (Tree tk ao kids) -> tree_size (Tree tk ao kids) <= S F ->
     exists ids own,
-      get st0 r = Some {| n_key := None; n_tok := tk; n_allof := ao; n_children := ids; n_inh := [] |} /\
+      get st0 r = Some {| n_key := key; n_tok := tk; n_allof := ao; n_children := ids; n_inh := [] |} /\
       cnodes st0 r = Some own /\ Forall (pnode F st0) own /\ Forall (fun c => n_inh c = []) own /\
       map n_key own = map fst kids /\
       (forall d ownr, all_some (map (fun kc => spec_tree d tys (fst kc) (snd kc)) kids) = Some ownr ->
@@ -1667,29 +1960,32 @@ Section Bridge.
   Qed.
 
   (* the closure computed on the heap is the closure computed on the ASTs *)
-  Lemma expected_spec : forall d r tk ao kids x,
-    shape (heap st0) r None (Tree tk ao kids) -> troot (Tree tk ao kids) -> (ao <> [] -> tk = TObject) ->
-    tree_size (Tree tk ao kids) <= S F ->
-    spec_tree d tys None (Tree tk ao kids) = Some x ->
+  Lemma expected_spec : forall d r key tk ao kids x,
+    shape (heap st0) r key (Tree tk ao kids) -> troot (Tree tk ao kids) -> (ao <> [] -> tk = TObject) ->
+    tree_size (Tree tk ao kids) <= S F -> (forall b, In b ao -> isbase b) ->
+    spec_tree d tys key (Tree tk ao kids) = Some x ->
     exists L, expected ts st0 d r = Some L /\ all_some (map (rnode F st0) L) = Some (rkids x) /\
-              x = RNode None tk [] (rkids x).
+              x = RNode key tk [] (rkids x).
   Proof.
-    induction d as [|d IH]; intros r tk ao kids x Hs Ht Hw Hsz Hspec; [discriminate|].
-    destruct (root_facts r tk ao kids Hs Ht Hsz) as (ids & own & Hn & Hown & Hp & Hi & Hk & Hownspec).
+    induction d as [|d IH]; intros r key tk ao kids x Hs Ht Hw Hsz Hbases Hspec; [discriminate|].
+    destruct (root_facts r key tk ao kids Hs Ht Hsz) as (ids & own & Hn & Hown & Hp & Hi & Hk & Hownspec).
     simpl in Hspec.
     destruct (all_some (map (fun kc => spec_tree d tys (fst kc) (snd kc)) kids)) as [ownr|] eqn:Eo; [|discriminate].
     specialize (Hownspec d ownr Eo).
     simpl. rewrite Hn, Hown. simpl.
     (* the bases *)
-    assert (Hb : forall bs inh, all_some (map (spec_base (spec_tree d tys) tys) bs) = Some inh ->
+    assert (Hb : forall bs inh, (forall b, In b bs -> isbase b) ->
+                 all_some (map (spec_base (spec_tree d tys) tys) bs) = Some inh ->
                  exists inhL, all_some (map (contrib ts st0 (expected ts st0 d)) bs) = Some inhL /\
                               all_some (map (rnode F st0) (List.concat inhL)) = Some (List.concat inh)).
-    { induction bs as [|b bs IHb]; intros inh Hinh.
+    { induction bs as [|b bs IHb]; intros inh Hbs Hinh.
       - simpl in Hinh. injection Hinh as <-. exists []. simpl. auto.
       - simpl in Hinh.
+        assert (Hbb : isbase b) by (apply Hbs; simpl; auto).
+        assert (Hbs' : forall b', In b' bs -> isbase b') by (intros; apply Hbs; simpl; auto).
         destruct (spec_base (spec_tree d tys) tys b) as [sb|] eqn:Esb; [|discriminate].
         destruct (all_some (map (spec_base (spec_tree d tys) tys) bs)) as [inh'|] eqn:Ei; [|discriminate].
-        injection Hinh as <-. destruct (IHb inh' eq_refl) as (inhL & HinhL & Hr).
+        injection Hinh as <-. destruct (IHb inh' Hbs' eq_refl) as (inhL & HinhL & Hr).
         unfold spec_base in Esb.
         assert (Hlm := lookup_match (heap st0) tys ts b Hmatch).
         destruct (lookup tys b) as [[tb|]|] eqn:Elb; try discriminate.
@@ -1698,7 +1994,8 @@ Section Bridge.
         injection Esb as <-.
         destruct (lookup ts b) as [[rb|]|] eqn:Elt; try (destruct Hlm; fail).
         assert (Hin : In (b, Some (Tree TObject aob kidsb)) tys) by (apply lookup_In; auto).
-        destruct (IH rb TObject aob kidsb rbr Hlm (Htroot _ _ Hin) (fun _ => eq_refl) (Hsize _ _ Hin) Erb)
+        destruct (IH rb None TObject aob kidsb rbr Hlm (Htroot _ _ Hbb Elb) (fun _ => eq_refl) (Hsize _ _ Hin)
+                     (fun b' Hb' => Hclosed b TObject aob kidsb b' Hbb Elb Hb') Erb)
           as (Lb & HLb & HrLb & Hxb).
         destruct (shape_root_node _ _ _ _ Hlm) as (nb & Hnb & _ & _ & Htokb & _).
         exists (map (set_inh b) Lb :: inhL). split.
@@ -1716,7 +2013,7 @@ Section Bridge.
           apply Hmm. exact HrLb. }
     destruct tk.
     - destruct (all_some (map (spec_base (spec_tree d tys) tys) ao)) as [inh|] eqn:Ei; [|discriminate].
-      injection Hspec as <-. destruct (Hb ao inh Ei) as (inhL & HinhL & Hr).
+      injection Hspec as <-. destruct (Hb ao inh Hbases Ei) as (inhL & HinhL & Hr).
       rewrite HinhL. eexists. split; [reflexivity|]. split; [|reflexivity].
       simpl. rewrite map_app. apply all_some_app; auto.
     - injection Hspec as <-. destruct ao as [|b ao]; [|specialize (Hw ltac:(discriminate)); discriminate].
@@ -1870,291 +2167,6 @@ Proof.
   destruct Hin as [<-|Hin]; [eauto|]. destruct (IH Hin) as (a & Ha & Hr). eauto.
 Qed.
 
-Lemma render_S_mono : forall f st i x, render f st i = Some x -> render (S f) st i = Some x.
-Proof.
-  induction f as [|f IH]; intros st i x Hr; [discriminate|].
-  rewrite render_S in Hr. rewrite render_S. destruct (get st i) as [n|]; [|discriminate].
-  unfold rnode in *. destruct (all_some (map (render f st) (n_children n))) as [ks|] eqn:Ek; [|discriminate].
-  rewrite (all_some_weaken _ (render (S f) st) _ _ Ek); [exact Hr|]. intros c y _ Hc. apply IH. exact Hc.
-Qed.
-
-Lemma render_le f f' st i x : f <= f' -> render f st i = Some x -> render f' st i = Some x.
-Proof. induction 1; auto. intros. apply render_S_mono. auto. Qed.
-
-(* what C12 says about one run: every user type and every use-site schema (JSON-RPC ones only
-   when told so) renders as the pure closure, for every rendering fuel that is large enough *)
-Definition renders_as_spec (rpc_too : bool) (e : env) (w : world) : Prop :=
-  forall fuel, env_size e + 2 <= fuel ->
-    Forall2 (fun (a : bytes * option tree) (b : bytes * option id) =>
-               fst a = fst b /\
-               match snd a, snd b with
-               | Some t, Some r => render fuel (w_state w) r = spec_schema e t
-               | None, None => True
-               | _, _ => False
-               end) (e_types e) (w_types w) /\
-    Forall2 (fun (a : ukind * tree) (b : ukind * id) =>
-               fst a = fst b /\
-               (is_rpc (fst a) = false \/ rpc_too = true -> render fuel (w_state w) (snd b) = spec_schema e (snd a)))
-            (e_uses e) (w_uses w).
-
-Section Final.
-  Variable e : env.
-  Hypothesis Hlib : lib_ok e = true.
-  Hypothesis Hroot : env_root_level e = true.
-
-  Let F := env_size e.
-  Let D := spec_fuel e.
-  Let tys := e_types e.
-  Let ts := w_types (init_world e).
-  Let us := w_uses (init_world e).
-  Let st0 := w_state (init_world e).
-
-  Lemma lib_facts :
-    (forall n, In n (map fst tys) -> n <> []) /\ NoDup (map fst tys) /\
-    (forall n t, In (n, Some t) tys -> schema_ok e t = true) /\
-    (forall k t, In (k, t) (e_uses e) -> schema_ok e t = true).
-  Proof.
-    unfold lib_ok in Hlib. apply andb_true_iff in Hlib as [H123 H4].
-    apply andb_true_iff in H123 as [H12a H3]. apply andb_true_iff in H12a as [H12 _].
-    apply andb_true_iff in H12 as [H1 H2].
-    rewrite forallb_forall in H1, H3, H4. repeat split.
-    - intros n Hin. specialize (H1 n Hin). destruct n; [discriminate|discriminate].
-    - apply nodupb_NoDup. exact H2.
-    - intros n t Hin. apply (H3 (n, Some t) Hin).
-    - intros k t Hin. apply (H4 (k, t) Hin).
-  Qed.
-
-  Lemma root_level_facts :
-    (forall n t, In (n, Some t) tys -> troot t) /\ (forall k t, In (k, t) (e_uses e) -> troot t).
-  Proof.
-    unfold env_root_level in Hroot. apply andb_true_iff in Hroot as [H1 H2].
-    rewrite forallb_forall in H1, H2. split.
-    - intros n t Hin. apply root_level_troot. apply (H1 (n, Some t) Hin).
-    - intros k t Hin. apply root_level_troot. apply (H2 (k, t) Hin).
-  Qed.
-
-  Lemma schema_facts t :
-    schema_ok e t = true ->
-    rootwf t /\ exists x, spec_tree D tys None t = Some x /\
-                          (forall k i ks, x = RNode k TObject i ks -> exists l, keys_of ks = Some l /\ NoDup l).
-  Proof.
-    unfold schema_ok. intros Hs. apply andb_true_iff in Hs as [Hw Hs]. split.
-    - eapply tree_wf_rootwf; eauto.
-    - unfold spec_schema in Hs. fold D tys in Hs. destruct (spec_tree D tys None t) as [x|]; [|discriminate].
-      exists x. split; auto. intros k i ks ->.
-      assert (Hf : exists f, D + D = S f) by (unfold D, spec_fuel; exists (env_size e + List.length (e_types e) + 1 + (env_size e + List.length (e_types e) + 2)); lia).
-      destruct Hf as (f & Hf). fold D in Hs. rewrite Hf in Hs. simpl in Hs.
-      apply andb_true_iff in Hs as [_ Hs]. destruct (keys_of ks) as [l|]; [|discriminate].
-      exists l. split; auto. apply nodupb_NoDup. exact Hs.
-  Qed.
-
-  Lemma init_facts :
-    hok (heap st0) /\ memo st0 = [] /\
-    Forall2 (tymatch (heap st0)) tys ts /\ Forall2 (usematch (heap st0)) (e_uses e) us.
-  Proof.
-    destruct root_level_facts as [Rt Ru].
-    unfold st0, ts, us, init_world.
-    destruct (build_types_spec tys []) as ((x1 & Hx1) & Hh1 & Hf1).
-    { intros i n c Hn. destruct i; discriminate. }
-    { exact Rt. }
-    fold tys. destruct (build_types [] tys) as [h1 ts'] eqn:E1. simpl in Hx1, Hh1, Hf1.
-    destruct (build_uses_spec (e_uses e) h1 Hh1 Ru) as ((x2 & Hx2) & Hh2 & Hf2).
-    destruct (build_uses h1 (e_uses e)) as [h2 us'] eqn:E2. simpl in *.
-    repeat split; auto. subst h2.
-    eapply Forall2_impl'; [|exact Hf1]. intros a b Hab. apply tymatch_app. exact Hab.
-  Qed.
-
-  Lemma tys_size n t : In (n, Some t) tys -> tree_size t <= S F.
-  Proof. intros Hin. apply size_in_types in Hin. unfold F, env_size. fold tys. lia. Qed.
-
-  Lemma uses_size k t : In (k, t) (e_uses e) -> tree_size t <= S F.
-  Proof. intros Hin. apply size_in_uses in Hin. unfold F, env_size. lia. Qed.
-
-  (* every root of the initial heap is the faithful copy of a declared schema *)
-  Lemma root_env r :
-    isroot ts (map snd us) r ->
-    exists tk ao kids, shape (heap st0) r None (Tree tk ao kids) /\ troot (Tree tk ao kids) /\
-                       tree_size (Tree tk ao kids) <= S F /\ schema_ok e (Tree tk ao kids) = true.
-  Proof.
-    destruct init_facts as (_ & _ & Hmt & Hmu). destruct root_level_facts as [Rt Ru].
-    destruct lib_facts as (_ & _ & St & Su).
-    intros [(b & Hb)|Hin].
-    - unfold tyroot in Hb. assert (Hlm := lookup_match _ _ _ b Hmt). rewrite Hb in Hlm.
-      destruct (lookup tys b) as [[t|]|] eqn:El; try (destruct Hlm; fail).
-      apply lookup_In in El. destruct t as [tk ao kids]. exists tk, ao, kids.
-      repeat split; eauto using tys_size.
-    - apply in_map_iff in Hin. destruct Hin as ([k r'] & Hr' & Hin). simpl in Hr'. subst r'.
-      destruct (Forall2_In_r _ _ _ _ Hmu Hin) as ([k' t] & Hin' & (Hk & Hs)). simpl in Hk, Hs. subst k'.
-      destruct t as [tk ao kids]. exists tk, ao, kids. repeat split; eauto using uses_size.
-  Qed.
-
-  Lemma root_expected r :
-    isroot ts (map snd us) r ->
-    exists tk ao kids x L,
-      shape (heap st0) r None (Tree tk ao kids) /\ spec_tree D tys None (Tree tk ao kids) = Some x /\
-      expected ts st0 D r = Some L /\ all_some (map (rnode F st0) L) = Some (rkids x) /\
-      x = RNode None tk [] (rkids x) /\
-      (tk = TObject -> NoDup (map n_key L)) /\ rootwf (Tree tk ao kids) /\ troot (Tree tk ao kids) /\
-      tree_size (Tree tk ao kids) <= S F.
-  Proof.
-    intros Hr. destruct (root_env r Hr) as (tk & ao & kids & Hs & Ht & Hsz & Hok).
-    destruct init_facts as (_ & _ & Hmt & _). destruct root_level_facts as [Rt _].
-    destruct (schema_facts _ Hok) as (Hw & x & Hx & Hkeys).
-    destruct (expected_spec tys ts st0 F Hmt Rt tys_size D r tk ao kids x Hs Ht (proj1 Hw) Hsz Hx)
-      as (L & HL & Hrn & Hxeq).
-    exists tk, ao, kids, x, L. split; [exact Hs|]. split; [exact Hx|]. split; [exact HL|]. split; [exact Hrn|].
-    split; [exact Hxeq|]. split; [|split; [exact Hw|split; [exact Ht|exact Hsz]]].
-    intros ->. destruct (Hkeys None [] (rkids x) Hxeq) as (l & Hl & Hnd).
-    apply rnodes_keys in Hrn. apply keys_of_map in Hl.
-    assert (Hm : map n_key L = map Some l) by congruence. rewrite Hm. apply NoDup_map_Some. exact Hnd.
-  Qed.
-
-  Theorem allof_correct_rootlevel_lemma :
-    exists w, run e = ROk w /\ renders_as_spec false e w /\
-              (env_no_rpc_allof e = true -> renders_as_spec true e w) /\
-              w_types w = w_types (init_world e) /\ w_uses w = w_uses (init_world e) /\
-              (forall i n, get (w_state (init_world e)) i = Some n -> n_allof n = [] -> get (w_state w) i = Some n).
-  Proof.
-    destruct init_facts as (Hhok & Hmemo & Hmt & Hmu). destruct root_level_facts as [Rt Ru].
-    destruct lib_facts as (Hne & Hnd & St & Su).
-    assert (Hfst : map fst ts = map fst tys) by (apply (match_fst _ _ _ Hmt)).
-    assert (HexD : forall r, isroot ts (map snd us) r -> expected ts st0 D r <> None).
-    { intros r Hr. destruct (root_expected r Hr) as (? & ? & ? & ? & L & _ & _ & HL & _). congruence. }
-    (* the hypotheses of Section Roots *)
-    destruct (process_all_ok ts st0 F (map snd us) (rankD ts st0 D)) with (fuel := default_fuel e) (uses := us)
-      as (st' & Hrun & HT & Hdt & Hdu).
-    - apply hok_heap_ok. exact Hhok.
-    - intros b r Hb. apply Hne. rewrite <- Hfst. unfold tyroot in Hb. apply lookup_In in Hb.
-      change b with (fst (b, Some r)). apply in_map. exact Hb.
-    - intros r Hr. destruct (root_expected r Hr) as (tk & ao & kids & x & L & Hs & _ & _ & _ & _ & _ & Hw & Ht & Hsz).
-      destruct (root_facts tys st0 F r tk ao kids Hs Ht Hsz) as (ids & own & Hn & Hown & Hp & Hi & Hk & _).
-      eexists. exists own. split; [exact Hn|]. split; [exact Hown|]. split; [exact Hp|]. split; [exact Hi|].
-      simpl. split.
-      + intros ->. destruct Hw as [_ Hw]. specialize (Hw eq_refl).
-        assert (Hkk : forall l1 l2, map n_key l1 = map fst l2 ->
-                      Forall (fun kc : option bytes * tree => exists k, fst kc = Some k) l2 -> Forall keyed l1).
-        { induction l1 as [|a l1 IHl]; intros l2 Hm Hf; [constructor|].
-          destruct l2 as [|b l2]; [discriminate|]. simpl in Hm. injection Hm as Ha Hm.
-          inversion Hf; subst. constructor; eauto. destruct H1 as (k & Hk'). exists k. congruence. }
-        apply (Hkk own kids); auto.
-      + exact (proj1 Hw).
-    - intros r n b rb Hr Hn Hb Hrb. apply (rankD_ok ts st0 D r n b rb); auto.
-      apply HexD. apply (tyroot_isroot ts (map snd us) b rb Hrb).
-    - intros r n L Hr Hn Hao HE.
-      destruct (root_expected r Hr) as (tk & ao & kids & x & L' & Hs & _ & HL' & _ & _ & Hnd' & Hw & _).
-      rewrite (Ex_fun ts st0 r L L' HE (ex_intro _ D HL')). apply Hnd'.
-      destruct (shape_root_node _ _ _ _ Hs) as (n' & Hn' & _ & _ & Htk & Hao').
-      unfold get in Hn. rewrite Hn' in Hn. injection Hn as <-. apply (proj1 Hw). congruence.
-    - intros name r Hin. apply In_lookup_nodup; auto. rewrite Hfst. exact Hnd.
-    - intros r Hr. destruct (root_expected r Hr) as (? & ? & ? & ? & L & _ & _ & HL & _). exists L, D. exact HL.
-    - intros k r Hin. apply in_map_iff. exists (k, r). auto.
-    - intros r Hr.
-      assert (Hle : rankD ts st0 D r <= D).
-      { destruct (expected ts st0 D r) as [L|] eqn:EL; [|exfalso; apply (HexD r Hr); exact EL].
-        apply (rankD_le ts st0 D r D L); auto; try (rewrite EL; discriminate). }
-      unfold default_fuel. unfold D, spec_fuel, F in *. lia.
-    - exact Hmemo.
-    - (* the run, and what it leaves behind *)
-      exists {| w_types := ts; w_uses := us; w_state := st' |}.
-      assert (Hrun' : run e = ROk {| w_types := ts; w_uses := us; w_state := st' |}).
-      { unfold run, run_fuel. fold ts us st0. rewrite Hrun. reflexivity. }
-      split; [exact Hrun'|].
-      assert (Hdone : forall r, isroot ts (map snd us) r -> done ts st0 st' r ->
-                                forall fuel, F + 2 <= fuel ->
-                                forall tk ao kids, shape (heap st0) r None (Tree tk ao kids) ->
-                                                   render fuel st' r = spec_tree D tys None (Tree tk ao kids)).
-      { intros r Hr (L & HE & HL) fuel Hfuel tk ao kids Hs.
-        destruct (root_expected r Hr) as (tk' & ao' & kids' & x & L' & Hs' & Hx & HL' & Hrn & Hxeq & _ & _ & _ & _).
-        assert (Heqt : Tree tk' ao' kids' = Tree tk ao kids).
-        { (* two shapes at one id describe one tree *)
-          clear - Hs Hs'. revert r Hs Hs'. generalize (@None bytes) as key.
-          assert (G : forall t1 key r t2, shape (heap st0) r key t1 -> shape (heap st0) r key t2 -> t1 = t2).
-          { induction t1 as [tk1 ao1 kids1 IH] using tree_ind'. intros key r t2 H1 H2.
-            inversion H1 as [i1 k1 tk1' ao1' kids1' ids1 Hn1 Hk1]; subst.
-            inversion H2 as [i2 k2 tk2 ao2 kids2 ids2 Hn2 Hk2]; subst.
-            rewrite Hn1 in Hn2. injection Hn2 as <- <- <-. f_equal.
-            clear Hn1 H1 H2. revert kids2 Hk2. induction Hk1 as [|c kc ids kids1 Hc _ IHk]; intros kids2 Hk2.
-            - inversion Hk2. reflexivity.
-            - inversion Hk2 as [|c' kc2 ids' kids2' Hc2 Hk2']; subst. inversion IH; subst.
-              destruct kc as [k1 t1], kc2 as [k2 t2]. simpl in *.
-              assert (k1 = k2).
-              { destruct (shape_root_node _ _ _ _ Hc) as (n1 & Hn1 & Hk1' & _).
-                destruct (shape_root_node _ _ _ _ Hc2) as (n2 & Hn2 & Hk2'' & _). congruence. }
-              subst k2. rewrite (H1 k1 c t2 Hc Hc2). f_equal. apply IHk; auto. }
-          intros key r H1 H2. symmetry. eapply G; eauto. }
-        injection Heqt as -> -> ->.
-        rewrite (Ex_fun ts st0 r L L' HE (ex_intro _ D HL')) in HL.
-        destruct (shape_root_node _ _ _ _ Hs) as (n0 & Hn0 & Hk0 & Hi0 & Ht0 & _).
-        assert (Hr2 : render (S (S F)) st' r = Some x).
-        { rewrite (render_root st0 st' F r n0 L'); auto.
-          - rewrite Hrn, Hk0, Ht0, Hi0. rewrite Hxeq at 2. reflexivity.
-          - exact (top_ext _ _ _ _ HT).
-          - destruct (Ex_nodes ts st0 F (map snd us)) with (d := D) (r := r) (L := L') as [Hp _]; auto.
-            intros r0 Hr0. destruct (root_expected r0 Hr0) as (tk0 & ao0 & kids0 & x0 & L0 & Hs0 & _ & _ & _ & _ & _ & Hw0 & Ht0' & Hsz0).
-            destruct (root_facts tys st0 F r0 tk0 ao0 kids0 Hs0 Ht0' Hsz0) as (ids & own & Hn & Hown & Hp & Hi & Hk & _).
-            eexists. exists own. split; [exact Hn|]. split; [exact Hown|]. split; [exact Hp|]. split; [exact Hi|].
-            simpl. split; [|exact (proj1 Hw0)].
-            intros ->. destruct Hw0 as [_ Hw0]. specialize (Hw0 eq_refl).
-            clear - Hk Hw0. revert kids0 Hk Hw0. induction own as [|a l1 IHl]; intros l2 Hm Hf; [constructor|].
-            destruct l2 as [|b l2]; [discriminate|]. simpl in Hm. injection Hm as Ha Hm.
-            inversion Hf; subst. constructor; eauto. destruct H1 as (k & Hk'). exists k. congruence. }
-        rewrite Hx. apply (render_le (S (S F)) fuel); auto. lia. }
-      assert (Hall : forall rpc_too, (rpc_too = true -> env_no_rpc_allof e = true) -> renders_as_spec rpc_too e {| w_types := ts; w_uses := us; w_state := st' |}).
-      { intros rpc_too Hrpc fuel Hfuel. simpl. split.
-        - assert (G : forall l1 l2, Forall2 (tymatch (heap st0)) l1 l2 -> (forall n r, In (n, Some r) l2 -> In (n, Some r) ts) ->
-                      Forall2 (fun (a : bytes * option tree) (b : bytes * option id) =>
-                                 fst a = fst b /\ match snd a, snd b with
-                                                  | Some t, Some r => render fuel st' r = spec_schema e t
-                                                  | None, None => True
-                                                  | _, _ => False end) l1 l2).
-          { induction 1 as [|[n1 o1] [n2 o2] l1 l2 [Hk Hm] _ IH]; intros Hsub; constructor.
-            - simpl in *. split; auto. destruct o1 as [t|], o2 as [r|]; auto.
-              assert (Hin : In (n2, Some r) ts) by (apply Hsub; auto).
-              assert (Hr : isroot ts (map snd us) r).
-              { left. exists n2. apply In_lookup_nodup; auto. rewrite Hfst. exact Hnd. }
-              destruct t as [tk ao kids]. unfold spec_schema. fold D tys.
-              apply (Hdone r Hr (Hdt n2 r Hin) fuel Hfuel tk ao kids Hm).
-            - apply IH. intros; apply Hsub; simpl; auto. }
-          apply G; auto.
-        - assert (G : forall l1 l2, Forall2 (usematch (heap st0)) l1 l2 -> (forall k r, In (k, r) l2 -> In (k, r) us) ->
-                      (forall k t, In (k, t) l1 -> In (k, t) (e_uses e)) ->
-                      Forall2 (fun (a : ukind * tree) (b : ukind * id) =>
-                                 fst a = fst b /\
-                                 (is_rpc (fst a) = false \/ rpc_too = true -> render fuel st' (snd b) = spec_schema e (snd a))) l1 l2).
-          { induction 1 as [|[k1 t] [k2 r] l1 l2 [Hk Hm] _ IH]; intros Hsub Hsub1; constructor.
-            - simpl in *. subst k2. split; auto. intros Hcase.
-              assert (Hin : In (k1, r) us) by (apply Hsub; auto).
-              assert (Hr : isroot ts (map snd us) r) by (right; apply in_map_iff; exists (k1, r); auto).
-              destruct t as [tk ao kids]. unfold spec_schema. fold D tys.
-              apply (Hdone r Hr); auto.
-              destruct (is_rpc k1) eqn:Erpc; [|apply (Hdu k1 r Hin Erpc)].
-              (* a JSON-RPC schema is never visited: it is as declared, which is right when it has no allOf *)
-              destruct Hcase as [|Hcase]; [discriminate|]. specialize (Hrpc Hcase).
-              unfold env_no_rpc_allof in Hrpc. rewrite forallb_forall in Hrpc.
-              specialize (Hrpc (k1, Tree tk ao kids) (Hsub1 _ _ (or_introl eq_refl))). cbn [fst snd] in Hrpc.
-              rewrite Erpc in Hrpc. cbn [andb] in Hrpc. apply negb_true_iff in Hrpc.
-              cbn [has_allof] in Hrpc. apply orb_false_iff in Hrpc as [Hao _].
-              assert (ao = []) by (destruct ao; [reflexivity|discriminate]). subst ao.
-              destruct (root_expected r Hr) as (tk' & ao' & kids' & x & L' & Hs' & _ & HL' & _).
-              destruct (top_roots _ _ _ _ HT r Hr) as [Hraw|Hd]; auto.
-              exists L'. split; [exists D; exact HL'|].
-              unfold raw in Hraw. rewrite Hraw.
-              destruct D as [|d] eqn:ED; [discriminate|]. simpl in HL'.
-              destruct (shape_root_node _ _ _ _ Hm) as (n0 & Hn0 & _ & _ & _ & Hao0).
-              unfold get in HL'. fold st0 in Hn0. rewrite Hn0 in HL'. fold (get st0 r) in HL'.
-              destruct (cnodes st0 r) as [own|]; [|discriminate]. rewrite Hao0 in HL'. simpl in HL'.
-              injection HL' as <-. reflexivity.
-            - apply IH; intros; [apply Hsub|apply Hsub1]; simpl; auto. }
-          apply G; auto. }
-      split; [apply Hall; discriminate|].
-      split; [intros Hnr; apply Hall; auto|].
-      split; [reflexivity|]. split; [reflexivity|].
-      intros i n Hi Ha. simpl. apply (ext_plain _ _ (top_ext _ _ _ _ HT)); auto.
-  Qed.
-End Final.
-(* ------------------------------------------------------------------------------------- *)
-(* the closure does not depend on fuel (once defined) nor on the order of the declarations *)
-
 Lemma spec_tree_S : forall d tys key t x, spec_tree d tys key t = Some x -> spec_tree (S d) tys key t = Some x.
 Proof.
   induction d as [|d IH]; intros tys key t x Hs; [discriminate|].
@@ -2186,6 +2198,499 @@ Proof.
   rewrite (all_some_ext (spec_base (spec_tree d tys) tys) (spec_base (spec_tree d tys') tys')); auto.
   intros b _. unfold spec_base. rewrite Hl. destruct (lookup tys' b) as [[[[] ? ?]|]|]; auto. rewrite IH. reflexivity.
 Qed.
+
+Lemma shape_fun hp : forall t1 key r t2, shape hp r key t1 -> shape hp r key t2 -> t1 = t2.
+Proof.
+  induction t1 as [tk1 ao1 kids1 IH] using tree_ind'. intros key r t2 H1 H2.
+  inversion H1 as [i1 k1 tk1' ao1' kids1' ids1 Hn1 Hk1]; subst.
+  inversion H2 as [i2 k2 tk2 ao2 kids2 ids2 Hn2 Hk2]; subst.
+  rewrite Hn1 in Hn2. injection Hn2 as <- <- <-. f_equal.
+  clear Hn1 H1 H2. revert kids2 Hk2. induction Hk1 as [|c kc ids kids1 Hc _ IHk]; intros kids2 Hk2.
+  - inversion Hk2. reflexivity.
+  - inversion Hk2 as [|c' kc2 ids' kids2' Hc2 Hk2']; subst. inversion IH; subst.
+    destruct kc as [k1 t1], kc2 as [k2 t2]. simpl in *.
+    assert (k1 = k2).
+    { destruct (shape_root_node _ _ _ _ Hc) as (n1 & Hn1 & Hk1' & _).
+      destruct (shape_root_node _ _ _ _ Hc2) as (n2 & Hn2 & Hk2'' & _). congruence. }
+    subst k2. rewrite (H1 k1 c t2 Hc Hc2). f_equal. apply IHk; auto.
+Qed.
+
+Lemma shape_key hp r key key' t t' : shape hp r key t -> shape hp r key' t' -> key = key'.
+Proof.
+  intros H1 H2. destruct (shape_root_node _ _ _ _ H1) as (n1 & Hn1 & Hk1 & _).
+  destruct (shape_root_node _ _ _ _ H2) as (n2 & Hn2 & Hk2 & _). congruence.
+Qed.
+
+Lemma tree_names_eq tk ao kids :
+  tree_names (Tree tk ao kids) = ao ++ flat_map (fun kc => tree_names (snd kc)) kids.
+Proof.
+  simpl. f_equal. induction kids as [|[k c] r IH]; simpl; [reflexivity|]. rewrite IH. reflexivity.
+Qed.
+
+Lemma render_S_mono : forall f st i x, render f st i = Some x -> render (S f) st i = Some x.
+Proof.
+  induction f as [|f IH]; intros st i x Hr; [discriminate|].
+  rewrite render_S in Hr. rewrite render_S. destruct (get st i) as [n|]; [|discriminate].
+  unfold rnode in *. destruct (all_some (map (render f st) (n_children n))) as [ks|] eqn:Ek; [|discriminate].
+  rewrite (all_some_weaken _ (render (S f) st) _ _ Ek); [exact Hr|]. intros c y _ Hc. apply IH. exact Hc.
+Qed.
+
+Lemma render_le f f' st i x : f <= f' -> render f st i = Some x -> render f' st i = Some x.
+Proof. induction 1; auto. intros. apply render_S_mono. auto. Qed.
+
+(* what C12 says about one run: every user type and every use-site schema renders as the pure
+   closure, for every rendering fuel that is large enough *)
+Definition renders_as_spec (e : env) (w : world) : Prop :=
+  forall fuel, 2 * env_size e + 3 <= fuel ->
+    Forall2 (fun (a : bytes * option tree) (b : bytes * option id) =>
+               fst a = fst b /\
+               match snd a, snd b with
+               | Some t, Some r => render fuel (w_state w) r = spec_schema e t
+               | None, None => True
+               | _, _ => False
+               end) (e_types e) (w_types w) /\
+    Forall2 (fun (a : ukind * tree) (b : ukind * id) =>
+               fst a = fst b /\ render fuel (w_state w) (snd b) = spec_schema e (snd a))
+            (e_uses e) (w_uses w).
+
+Definition twf (t : tree) : Prop := exists f, tree_wf f t = true.
+
+Lemma twf_kids tk ao kids : twf (Tree tk ao kids) -> forall kc, In kc kids -> twf (snd kc).
+Proof.
+  intros [f Hf] kc Hin. destruct f as [|f]; [discriminate|]. simpl in Hf.
+  apply andb_true_iff in Hf as [Hf _]. rewrite forallb_forall in Hf. exists f. auto.
+Qed.
+
+Lemma twf_rootwf t : twf t -> rootwf t.
+Proof. intros [f Hf]. eapply tree_wf_rootwf; eauto. Qed.
+
+Lemma twf_other_no_kids ao kids : twf (Tree TOther ao kids) -> kids = [].
+Proof.
+  intros [f Hf]. destruct f as [|f]; [discriminate|]. simpl in Hf.
+  apply andb_true_iff in Hf as [_ Hf]. apply andb_true_iff in Hf as [Hf _]. destruct kids; [reflexivity|discriminate].
+Qed.
+
+Lemma troot_tskel t : troot t -> tskel t.
+Proof.
+  destruct t as [tk ao kids]. simpl. intros Hp. destruct ao.
+  - apply tskel_inner. eapply Forall_impl; [|exact Hp]. intros kc. apply tplain_tskel.
+  - apply tskel_rule. exact Hp.
+Qed.
+
+(* the class of allof_correct_skeleton, as a proposition *)
+Definition skeleton_prop (e : env) : Prop :=
+  (forall n t, In (n, Some t) (e_types e) -> tskel t) /\
+  (forall k t, In (k, t) (e_uses e) -> tskel t) /\
+  (forall b t, In b (env_names e) -> lookup (e_types e) b = Some (Some t) -> troot t).
+
+Lemma env_skeleton_prop e : env_skeleton e = true -> skeleton_prop e.
+Proof.
+  intros Hskel. unfold env_skeleton in Hskel. apply andb_true_iff in Hskel as [H12 H3]. apply andb_true_iff in H12 as [H1 H2].
+  rewrite forallb_forall in H1, H2, H3. repeat split.
+  - intros n t Hin. apply (tree_skel_tskel (S (tree_size t))). apply (H1 (n, Some t) Hin).
+  - intros k t Hin. apply (tree_skel_tskel (S (tree_size t))). apply (H2 (k, t) Hin).
+  - intros b t Hb Hl. specialize (H3 b Hb). rewrite Hl in H3. apply root_level_troot. exact H3.
+Qed.
+
+Lemma env_root_level_prop e : env_root_level e = true -> skeleton_prop e.
+Proof.
+  intros Hroot. unfold env_root_level in Hroot. apply andb_true_iff in Hroot as [H1 H2].
+  rewrite forallb_forall in H1, H2. repeat split.
+  - intros n t Hin. apply troot_tskel. apply root_level_troot. apply (H1 (n, Some t) Hin).
+  - intros k t Hin. apply troot_tskel. apply root_level_troot. apply (H2 (k, t) Hin).
+  - intros b t _ Hl. apply lookup_In in Hl. apply root_level_troot. apply (H1 (b, Some t) Hl).
+Qed.
+
+Section Final.
+  Variable e : env.
+  Hypothesis Hlib : lib_ok e = true.
+  Hypothesis Hskel : skeleton_prop e.
+
+  Let F := env_size e.
+  Let K := S F.
+  Let D := spec_fuel e.
+  Let tys := e_types e.
+  Let ts := w_types (init_world e).
+  Let us := w_uses (init_world e).
+  Let st0 := w_state (init_world e).
+  Let priv := privK K (heap st0).
+  Let isbase (b : bytes) : Prop := In b (env_names e).
+
+  Lemma lib_facts :
+    (forall n, In n (map fst tys) -> n <> []) /\ NoDup (map fst tys) /\
+    (forall n t, In (n, Some t) tys -> schema_ok e t = true) /\
+    (forall k t, In (k, t) (e_uses e) -> schema_ok e t = true).
+  Proof.
+    unfold lib_ok in Hlib. apply andb_true_iff in Hlib as [H123 H4].
+    apply andb_true_iff in H123 as [H12a H3]. apply andb_true_iff in H12a as [H12 _].
+    apply andb_true_iff in H12 as [H1 H2].
+    rewrite forallb_forall in H1, H3, H4. repeat split.
+    - intros n Hin. specialize (H1 n Hin). destruct n; [discriminate|discriminate].
+    - apply nodupb_NoDup. exact H2.
+    - intros n t Hin. apply (H3 (n, Some t) Hin).
+    - intros k t Hin. apply (H4 (k, t) Hin).
+  Qed.
+
+  Lemma schema_facts t :
+    schema_ok e t = true ->
+    twf t /\ exists x, spec_tree D tys None t = Some x /\ rtree_ok x = true.
+  Proof.
+    unfold schema_ok. intros Hs. apply andb_true_iff in Hs as [Hw Hs]. split; [eexists; eauto|].
+    unfold spec_schema in Hs. fold D tys in Hs. destruct (spec_tree D tys None t) as [x|]; [|discriminate].
+    exists x. auto.
+  Qed.
+
+  Lemma skeleton_facts :
+    (forall n t, In (n, Some t) tys -> tskel t) /\ (forall k t, In (k, t) (e_uses e) -> tskel t) /\
+    (forall b t, isbase b -> lookup tys b = Some (Some t) -> troot t).
+  Proof. exact Hskel. Qed.
+
+  Lemma names_type n t b : In (n, Some t) tys -> In b (tree_names t) -> isbase b.
+  Proof.
+    intros Hin Hb. unfold isbase, env_names. apply in_or_app. left. apply in_flat_map.
+    exists (n, Some t). split; auto.
+  Qed.
+
+  Lemma names_use k t b : In (k, t) (e_uses e) -> In b (tree_names t) -> isbase b.
+  Proof.
+    intros Hin Hb. unfold isbase, env_names. apply in_or_app. right. apply in_flat_map.
+    exists (k, t). split; auto.
+  Qed.
+
+  Lemma isbase_closed b tk ao kids b' :
+    isbase b -> lookup tys b = Some (Some (Tree tk ao kids)) -> In b' ao -> isbase b'.
+  Proof.
+    intros _ Hl Hb'. apply lookup_In in Hl. apply (names_type b (Tree tk ao kids) b' Hl).
+    rewrite tree_names_eq. apply in_or_app. left. exact Hb'.
+  Qed.
+
+  Lemma tys_size n t : In (n, Some t) tys -> tree_size t <= S F.
+  Proof. intros Hin. apply size_in_types in Hin. unfold F, env_size. fold tys. lia. Qed.
+
+  Lemma uses_size k t : In (k, t) (e_uses e) -> tree_size t <= S F.
+  Proof. intros Hin. apply size_in_uses in Hin. unfold F, env_size. lia. Qed.
+
+  Lemma init_facts :
+    aokl K (heap st0) /\ memo st0 = [] /\
+    Forall2 (tymatch (heap st0)) tys ts /\ Forall2 (usematch (heap st0)) (e_uses e) us.
+  Proof.
+    destruct skeleton_facts as (St & Su & _).
+    destruct (init_shapes e) as [Hmt Hmu]. fold tys ts us st0 in Hmt, Hmu.
+    split; [|split; [|split; [exact Hmt|exact Hmu]]].
+    - unfold st0, init_world. fold tys.
+      assert (Ha1 : aokl K (fst (build_types [] tys))).
+      { apply build_types_aokl.
+        - intros i n Hn. destruct i; discriminate.
+        - intros n t Hin. split; [eapply St; eauto|]. unfold K. eapply tys_size; eauto. }
+      destruct (build_types [] tys) as [h1 ts']. simpl in Ha1.
+      assert (Ha2 : aokl K (fst (build_uses h1 (e_uses e)))).
+      { apply build_uses_aokl; auto. intros k t Hin. split; [eapply Su; eauto|]. unfold K. eapply uses_size; eauto. }
+      destruct (build_uses h1 (e_uses e)) as [h2 us']. exact Ha2.
+    - unfold st0, init_world. destruct (build_types [] (e_types e)) as [h1 ts'].
+      destruct (build_uses h1 (e_uses e)) as [h2 us']. reflexivity.
+  Qed.
+
+  (* a root: an object (or anything) whose children are plain, inside a schema the library accepted *)
+  Definition isroot_e (r : id) : Prop :=
+    exists key tk ao kids x,
+      shape (heap st0) r key (Tree tk ao kids) /\ troot (Tree tk ao kids) /\
+      tree_size (Tree tk ao kids) <= S F /\ rootwf (Tree tk ao kids) /\
+      (forall b, In b ao -> isbase b) /\
+      spec_tree D tys key (Tree tk ao kids) = Some x /\ rtree_ok x = true.
+
+  Lemma root_expected r :
+    isroot_e r ->
+    exists key tk ao kids x L,
+      shape (heap st0) r key (Tree tk ao kids) /\ spec_tree D tys key (Tree tk ao kids) = Some x /\
+      expected ts st0 D r = Some L /\ all_some (map (rnode F st0) L) = Some (rkids x) /\
+      x = RNode key tk [] (rkids x) /\
+      (tk = TObject -> NoDup (map n_key L)) /\ rootwf (Tree tk ao kids) /\ troot (Tree tk ao kids) /\
+      tree_size (Tree tk ao kids) <= S F /\ (forall b, In b ao -> isbase b).
+  Proof.
+    intros (key & tk & ao & kids & x & Hs & Ht & Hsz & Hw & Hb & Hx & Hok).
+    destruct init_facts as (_ & _ & Hmt & _). destruct skeleton_facts as (_ & _ & Sb).
+    destruct (expected_spec tys ts st0 F isbase Hmt Sb isbase_closed tys_size D r key tk ao kids x Hs Ht (proj1 Hw) Hsz Hb Hx)
+      as (L & HL & Hrn & Hxeq).
+    exists key, tk, ao, kids, x, L. split; [exact Hs|]. split; [exact Hx|]. split; [exact HL|]. split; [exact Hrn|].
+    split; [exact Hxeq|]. split; [|split; [exact Hw|split; [exact Ht|split; [exact Hsz|exact Hb]]]].
+    intros ->. rewrite Hxeq in Hok. simpl in Hok. apply andb_true_iff in Hok as [_ Hok].
+    destruct (keys_of (rkids x)) as [l|] eqn:Hl; [|discriminate]. apply nodupb_NoDup in Hok.
+    apply rnodes_keys in Hrn. apply keys_of_map in Hl.
+    assert (Hm : map n_key L = map Some l) by congruence. rewrite Hm. apply NoDup_map_Some. exact Hok.
+  Qed.
+
+  Lemma type_root_is_root b rb :
+    isbase b -> lookup ts b = Some (Some rb) -> isroot_e rb.
+  Proof.
+    intros Hb Hl. destruct init_facts as (_ & _ & Hmt & _). destruct skeleton_facts as (_ & _ & Sb).
+    destruct lib_facts as (_ & _ & St & _).
+    assert (Hlm := lookup_match _ _ _ b Hmt). rewrite Hl in Hlm.
+    destruct (lookup tys b) as [[t|]|] eqn:El; try (destruct Hlm; fail).
+    assert (Hin := lookup_In _ _ _ El). destruct (schema_facts t (St _ _ Hin)) as (Hw & x & Hx & Hok).
+    destruct t as [tk ao kids]. exists None, tk, ao, kids, x.
+    repeat split; auto.
+    - apply (Sb b); auto.
+    - eapply tys_size; eauto.
+    - apply (proj1 (twf_rootwf _ Hw)).
+    - apply (proj2 (twf_rootwf _ Hw)).
+    - intros b' Hb'. eapply isbase_closed; eauto.
+  Qed.
+
+  Lemma root_not_priv r : isroot_e r -> ~ priv r.
+  Proof.
+    intros (key & tk & ao & kids & x & Hs & Ht & Hsz & _) (n & Hn & Ha & Hb).
+    destruct (shape_root_node _ _ _ _ Hs) as (n' & Hn' & _ & _ & _ & Hao). rewrite Hn in Hn'. injection Hn' as <-.
+    assert (Hp : tplain (Tree tk ao kids)).
+    { rewrite Ha in Hao. subst ao. constructor. exact Ht. }
+    assert (Hph := shape_plainh _ st0 r key Hs Hp).
+    apply (plainh_le _ K) in Hph; [|exact Hsz]. apply plainb_plainh in Hph. unfold priv in *. congruence.
+  Qed.
+
+  (* every node of a skeleton schema is a skeleton of the heap-level theory *)
+  Lemma skel_of_tree : forall t, tskel t -> twf t ->
+    forall i key d x, shape (heap st0) i key t -> tree_size t <= S F ->
+    (forall b, In b (tree_names t) -> isbase b) ->
+    spec_tree d tys key t = Some x -> d <= D -> rtree_ok x = true ->
+    skel priv st0 F isroot_e (tree_size t) i.
+  Proof.
+    induction t as [tk ao kids IH] using tree_ind'. intros Hs Hw i key d x Hsh Hsz Hnames Hx Hd Hok.
+    rewrite tree_size_eq. cbn [skel].
+    inversion Hs as [tk' a ao' kids' Hpk|tk' kids' Hsk]; subst.
+    - left. exists key, tk, (a :: ao'), kids, x. repeat split; auto.
+      + apply (proj1 (twf_rootwf _ Hw)).
+      + apply (proj2 (twf_rootwf _ Hw)).
+      + intros b Hb. apply Hnames. rewrite tree_names_eq. apply in_or_app. left. exact Hb.
+      + apply (spec_tree_le d D); auto.
+    - destruct (tplain_dec (Tree tk [] kids)) as [Hp|Hnp].
+      + right. left. apply (plainh_le (tree_size (Tree tk [] kids))); [exact Hsz|].
+        apply (shape_plainh _ st0 i key); auto.
+      + right. right. inversion Hsh as [i' key' tk' ao' kids' ids Hn Hk]; subst.
+        split.
+        { exists {| n_key := key; n_tok := tk; n_allof := []; n_children := ids; n_inh := [] |}.
+          split; [exact Hn|]. split; [reflexivity|].
+          destruct (plainb K (heap st0) i) eqn:Eb; [|reflexivity].
+          exfalso. apply Hnp. apply plainb_plainh in Eb. eapply shape_plain_conv; eauto. }
+        eexists. split; [exact Hn|]. split; [reflexivity|]. simpl. split.
+        { destruct tk; auto. exfalso. apply Hnp. rewrite (twf_other_no_kids _ _ Hw). constructor. constructor. }
+        (* the children *)
+        destruct d as [|d]; [discriminate|]. simpl in Hx.
+        destruct (all_some (map (fun kc => spec_tree d tys (fst kc) (snd kc)) kids)) as [own|] eqn:Eo; [|discriminate].
+        assert (Hxo : forallb rtree_ok own = true).
+        { destruct tk; simpl in Hx; injection Hx as <-; simpl in Hok; apply andb_true_iff in Hok as [Hok _]; exact Hok. }
+        rewrite tree_size_eq in Hsz.
+        assert (Hnk : forall kc, In kc kids -> forall b, In b (tree_names (snd kc)) -> isbase b).
+        { intros kc Hin b Hb. apply Hnames. rewrite tree_names_eq. simpl. apply in_flat_map. exists kc. auto. }
+        assert (Hwk := twf_kids _ _ _ Hw).
+        assert (Hszk : forall kc, In kc kids -> tree_size (snd kc) <= kids_size kids) by (intros; apply kids_size_In; auto).
+        remember (kids_size kids) as m eqn:Em. clear Em.
+        clear Hn Hsh Hs Hw Hnames Hnp Hx Hok. revert own Eo Hxo IH Hsk Hnk Hwk Hszk.
+        induction Hk as [|c kc ids kids Hc _ IHk]; intros own Eo Hxo IH Hsk Hnk Hwk Hszk; constructor.
+        * simpl in Eo. destruct (spec_tree d tys (fst kc) (snd kc)) as [xk|] eqn:Ek; [|discriminate].
+          destruct (all_some (map (fun kc0 => spec_tree d tys (fst kc0) (snd kc0)) kids)) as [own'|]; [|discriminate].
+          injection Eo as <-. simpl in Hxo. apply andb_true_iff in Hxo as [Hxk _].
+          inversion IH; subst. inversion Hsk; subst.
+          apply (skel_le priv st0 F isroot_e (tree_size (snd kc))); [apply Hszk; simpl; auto|].
+          apply (H1 H3 (Hwk kc (or_introl eq_refl)) c (fst kc) d xk); auto.
+          -- specialize (Hszk kc (or_introl eq_refl)). lia.
+          -- apply Hnk. simpl; auto.
+          -- lia.
+        * simpl in Eo. destruct (spec_tree d tys (fst kc) (snd kc)) as [xk|]; [|discriminate].
+          destruct (all_some (map (fun kc0 => spec_tree d tys (fst kc0) (snd kc0)) kids)) as [own'|] eqn:Eo'; [|discriminate].
+          injection Eo as <-. simpl in Hxo. apply andb_true_iff in Hxo as [_ Hxo'].
+          inversion IH; subst. inversion Hsk; subst.
+          apply (IHk own'); auto.
+          -- intros kc0 Hin. apply Hnk. simpl; auto.
+          -- intros kc0 Hin. apply Hwk. simpl; auto.
+          -- intros kc0 Hin. apply Hszk. simpl; auto.
+  Qed.
+
+  Lemma keyed_of_keys : forall (l1 : list node) (l2 : list (option bytes * tree)),
+    map n_key l1 = map fst l2 ->
+    Forall (fun kc : option bytes * tree => exists k, fst kc = Some k) l2 -> Forall keyed l1.
+  Proof.
+    induction l1 as [|a l1 IHl]; intros l2 Hm Hf; [constructor|].
+    destruct l2 as [|b l2]; [discriminate|]. simpl in Hm. injection Hm as Ha Hm.
+    inversion Hf; subst. constructor; eauto. destruct H1 as (k & Hk'). exists k. congruence.
+  Qed.
+
+  Lemma roots0_e r : isroot_e r ->
+    exists n own, get st0 r = Some n /\ cnodes st0 r = Some own /\
+                  Forall (pnode F st0) own /\ Forall (fun c => n_inh c = []) own /\
+                  (n_tok n = TObject -> Forall keyed own) /\ (n_allof n <> [] -> n_tok n = TObject).
+  Proof.
+    intros (key & tk & ao & kids & x & Hs & Ht & Hsz & Hw & _).
+    destruct (root_facts tys st0 F r key tk ao kids Hs Ht Hsz) as (ids & own & Hn & Hown & Hp & Hi & Hk & _).
+    eexists. exists own. split; [exact Hn|]. split; [exact Hown|]. split; [exact Hp|]. split; [exact Hi|].
+    simpl. split; [|exact (proj1 Hw)].
+    intros ->. apply (keyed_of_keys own kids Hk). apply (proj2 Hw). reflexivity.
+  Qed.
+
+  Lemma base_is_root_e r n b rb :
+    isroot_e r -> get st0 r = Some n -> In b (n_allof n) -> lookup ts b = Some (Some rb) -> isroot_e rb.
+  Proof.
+    intros (key & tk & ao & kids & x & Hs & _ & _ & _ & Hb & _) Hn Hin Hl.
+    destruct (shape_root_node _ _ _ _ Hs) as (n' & Hn' & _ & _ & _ & Hao).
+    unfold get in Hn. rewrite Hn' in Hn. injection Hn as <-. rewrite Hao in Hin.
+    apply (type_root_is_root b rb); auto.
+  Qed.
+
+  Lemma render_skel st' : Top priv ts st0 isroot_e st' ->
+    forall h i key t d x, skeldone priv ts st0 F isroot_e h st' i -> shape (heap st0) i key t ->
+      tree_size t <= S F -> spec_tree d tys key t = Some x -> render (S (S F) + h) st' i = Some x.
+  Proof.
+    intros HT. assert (HE := top_ext _ _ _ _ _ HT).
+    induction h as [|h IH]; intros i key t d x Hsd Hsh Hsz Hx; [destruct Hsd|].
+    destruct Hsd as [[Hr Hd]|[Hp|(Hp & n & Hn & Ha & Hc)]].
+    - (* a root, visited *)
+      destruct (root_expected i Hr) as (key' & tk & ao & kids & x' & L' & Hs' & Hx' & HL' & Hrn & Hxeq & _).
+      assert (key' = key) by (eapply shape_key; eauto). subst key'.
+      assert (t = Tree tk ao kids) by (eapply shape_fun; eauto). subst t.
+      assert (x' = x).
+      { apply (spec_tree_le _ (max D d)) in Hx'; [|lia]. apply (spec_tree_le _ (max D d)) in Hx; [|lia]. congruence. }
+      subst x'. destruct Hd as (L & HEx & HL).
+      rewrite (Ex_fun ts st0 i L L' HEx (ex_intro _ D HL')) in HL.
+      destruct (shape_root_node _ _ _ _ Hsh) as (n0 & Hn0 & Hk0 & Hi0 & Ht0 & _).
+      apply (render_le (S (S F))); [lia|].
+      rewrite (render_root st0 st' F i n0 L'); auto.
+      + rewrite Hrn, Hk0, Ht0, Hi0. rewrite Hxeq at 2. reflexivity.
+      + destruct (Ex_nodes ts st0 F isroot_e base_is_root_e roots0_e D i L' Hr HL') as [Hpn _]. exact Hpn.
+    - (* a plain subtree: untouched *)
+      assert (Htp : tplain t) by (eapply shape_plain_conv; eauto).
+      rewrite (render_plain_ext (S F) st0 st' i); auto; [|lia].
+      apply (render_plain_spec tys t st0 i key d x); auto. lia.
+    - (* an inner node: untouched itself, its children by induction *)
+      inversion Hsh as [i' key' tk ao kids ids Hnn Hk]; subst.
+      unfold get in Hn. rewrite Hnn in Hn. injection Hn as <-. simpl in Ha, Hc. subst ao.
+      assert (Hg' : get st' i = Some {| n_key := key; n_tok := tk; n_allof := []; n_children := ids; n_inh := [] |}).
+      { apply (ext_plain _ _ HE); auto. }
+      destruct d as [|d]; [discriminate|]. simpl in Hx.
+      destruct (all_some (map (fun kc => spec_tree d tys (fst kc) (snd kc)) kids)) as [own|] eqn:Eo; [|discriminate].
+      assert (Hxe : x = RNode key tk [] own).
+      { destruct tk; simpl in Hx; injection Hx as <-; reflexivity. }
+      subst x. replace (S (S F) + S h) with (S (S (S F) + h)) by lia.
+      rewrite render_S, Hg'. unfold rnode. cbn [n_children n_key n_tok n_inh].
+      assert (all_some (map (render (S (S F) + h) st') ids) = Some own) as ->; [|reflexivity].
+      rewrite tree_size_eq in Hsz.
+      assert (Hszk : forall kc, In kc kids -> tree_size (snd kc) <= S F).
+      { intros kc Hin. apply kids_size_In in Hin. lia. }
+      clear Hnn Hsh Hg' Hx Hp Hsz. revert own Eo Hc Hszk.
+      induction Hk as [|c kc ids kids Hck _ IHk]; intros own Eo Hc Hszk; simpl in *.
+      + exact Eo.
+      + destruct (spec_tree d tys (fst kc) (snd kc)) as [xk|] eqn:Ek; [|discriminate].
+        destruct (all_some (map (fun kc0 => spec_tree d tys (fst kc0) (snd kc0)) kids)) as [own'|] eqn:Eo'; [|discriminate].
+        injection Eo as <-. inversion Hc; subst.
+        rewrite (IH c (fst kc) (snd kc) d xk); auto.
+        rewrite (IHk own'); auto.
+  Qed.
+
+  Theorem allof_correct_skeleton_lemma :
+    exists w, run e = ROk w /\ renders_as_spec e w /\
+              w_types w = w_types (init_world e) /\ w_uses w = w_uses (init_world e) /\
+              (forall i n, get (w_state (init_world e)) i = Some n -> n_allof n = [] -> get (w_state w) i = Some n).
+  Proof.
+    destruct init_facts as (Haok & Hmemo & Hmt & Hmu). destruct skeleton_facts as (Skt & Sku & Sb).
+    destruct lib_facts as (Hne & Hnd & St & Su).
+    assert (Hfst : map fst ts = map fst tys) by (apply (match_fst _ _ _ Hmt)).
+    assert (HexD : forall r, isroot_e r -> expected ts st0 D r <> None).
+    { intros r Hr. destruct (root_expected r Hr) as (? & ? & ? & ? & ? & L & _ & _ & HL & _). congruence. }
+    destruct (process_all_ok priv ts st0 F isroot_e (rankD ts st0 D) base_is_root_e) with
+        (M := D + F + 2) (fuel := default_fuel e) (h := S F) (uses := us)
+      as (st' & Hrun & HT & Hdt & Hdu).
+    - apply aokl_heap_ok. exact Haok.
+    - exact root_not_priv.
+    - intros b r [Hb _]. apply Hne. rewrite <- Hfst. apply lookup_In in Hb.
+      change b with (fst (b, Some r)). apply in_map. exact Hb.
+    - exact roots0_e.
+    - intros r n b rb Hr Hn Hb [Hrb Hrr]. apply (rankD_ok ts st0 D r n b rb); auto.
+    - intros r n L Hr Hn Hao HE.
+      destruct (root_expected r Hr) as (key & tk & ao & kids & x & L' & Hs & _ & HL' & _ & _ & Hnd' & Hw & _).
+      rewrite (Ex_fun ts st0 r L L' HE (ex_intro _ D HL')). apply Hnd'.
+      destruct (shape_root_node _ _ _ _ Hs) as (n' & Hn' & _ & _ & Htk & Hao').
+      unfold get in Hn. rewrite Hn' in Hn. injection Hn as <-. apply (proj1 Hw). congruence.
+    - intros r Hr. destruct (root_expected r Hr) as (? & ? & ? & ? & ? & L & _ & _ & HL & _). exists L, D. exact HL.
+    - intros r Hr.
+      assert (Hle : rankD ts st0 D r <= D).
+      { destruct (expected ts st0 D r) as [L|] eqn:EL; [|exfalso; apply (HexD r Hr); exact EL].
+        apply (rankD_le ts st0 D r D L); auto; try (rewrite EL; discriminate). }
+      lia.
+    - lia.
+    - (* every user type is a skeleton *)
+      intros name r Hin.
+      destruct (In_match _ _ _ name r Hmt Hin) as (t & Hint & Hsh).
+      destruct (schema_facts t (St _ _ Hint)) as (Hw & x & Hx & Hok).
+      apply (skel_le _ _ _ _ (tree_size t)); [eapply tys_size; eauto|].
+      apply (skel_of_tree t (Skt _ _ Hint) Hw r None D x); auto.
+      + eapply tys_size; eauto.
+      + intros b Hb. eapply names_type; eauto.
+    - (* every use-site schema is a skeleton *)
+      intros k r Hin.
+      destruct (Forall2_In_r _ _ _ _ Hmu Hin) as ([k' t] & Hin' & (Hk & Hsh)). simpl in Hk, Hsh. subst k'.
+      destruct (schema_facts t (Su _ _ Hin')) as (Hw & x & Hx & Hok).
+      apply (skel_le _ _ _ _ (tree_size t)); [eapply uses_size; eauto|].
+      apply (skel_of_tree t (Sku _ _ Hin') Hw r None D x); auto.
+      + eapply uses_size; eauto.
+      + intros b Hb. eapply names_use; eauto.
+    - unfold default_fuel, D, spec_fuel, F. lia.
+    - exact Hmemo.
+    - exists {| w_types := ts; w_uses := us; w_state := st' |}.
+      assert (Hrun' : run e = ROk {| w_types := ts; w_uses := us; w_state := st' |}).
+      { unfold run, run_fuel. fold ts us st0. rewrite Hrun. reflexivity. }
+      split; [exact Hrun'|]. split.
+      + intros fuel Hfuel. simpl. split.
+        * assert (G : forall l1 l2, Forall2 (tymatch (heap st0)) l1 l2 ->
+                      (forall n r, In (n, Some r) l2 -> In (n, Some r) ts) ->
+                      (forall n t, In (n, Some t) l1 -> In (n, Some t) tys) ->
+                      Forall2 (fun (a : bytes * option tree) (b : bytes * option id) =>
+                                 fst a = fst b /\ match snd a, snd b with
+                                                  | Some t, Some r => render fuel st' r = spec_schema e t
+                                                  | None, None => True
+                                                  | _, _ => False end) l1 l2).
+          { induction 1 as [|[n1 o1] [n2 o2] l1 l2 [Hk Hm] _ IH]; intros Hsub Hsub1; constructor.
+            - simpl in *. split; auto. destruct o1 as [t|], o2 as [r|]; auto.
+              assert (Hin : In (n2, Some r) ts) by (apply Hsub; auto).
+              assert (Hint : In (n1, Some t) tys) by (apply Hsub1; auto).
+              destruct (schema_facts t (St _ _ Hint)) as (_ & x & Hx & _).
+              unfold spec_schema. fold D tys. rewrite Hx.
+              apply (render_le (S (S F) + S F)); [unfold F in *; lia|].
+              apply (render_skel st' HT (S F) r None t D x); [apply (Hdt n2 r Hin)|exact Hm|eapply tys_size; eauto|exact Hx].
+            - apply IH; intros; [apply Hsub|apply Hsub1]; simpl; auto. }
+          apply G; auto.
+        * assert (G : forall l1 l2, Forall2 (usematch (heap st0)) l1 l2 ->
+                      (forall k r, In (k, r) l2 -> In (k, r) us) ->
+                      (forall k t, In (k, t) l1 -> In (k, t) (e_uses e)) ->
+                      Forall2 (fun (a : ukind * tree) (b : ukind * id) =>
+                                 fst a = fst b /\ render fuel st' (snd b) = spec_schema e (snd a)) l1 l2).
+          { induction 1 as [|[k1 t] [k2 r] l1 l2 [Hk Hm] _ IH]; intros Hsub Hsub1; constructor.
+            - simpl in *. subst k2. split; auto.
+              assert (Hin : In (k1, r) us) by (apply Hsub; auto).
+              assert (Hint : In (k1, t) (e_uses e)) by (apply Hsub1; auto).
+              destruct (schema_facts t (Su _ _ Hint)) as (_ & x & Hx & _).
+              unfold spec_schema. fold D tys. rewrite Hx.
+              apply (render_le (S (S F) + S F)); [unfold F in *; lia|].
+              apply (render_skel st' HT (S F) r None t D x); [apply (Hdu k1 r Hin)|exact Hm|eapply uses_size; eauto|exact Hx].
+            - apply IH; intros; [apply Hsub|apply Hsub1]; simpl; auto. }
+          apply G; auto.
+      + split; [reflexivity|]. split; [reflexivity|].
+        intros i n Hi Ha. simpl. apply (ext_plain _ _ (top_ext _ _ _ _ _ HT)); auto.
+  Qed.
+End Final.
+
+Lemma allof_correct_skeleton_bool :
+  forall e, lib_ok e = true -> env_skeleton e = true ->
+  exists w, run e = ROk w /\ renders_as_spec e w /\
+            w_types w = w_types (init_world e) /\ w_uses w = w_uses (init_world e) /\
+            (forall i n, get (w_state (init_world e)) i = Some n -> n_allof n = [] -> get (w_state w) i = Some n).
+Proof. intros e Hl Hs. apply allof_correct_skeleton_lemma; auto. apply env_skeleton_prop. exact Hs. Qed.
+
+Lemma allof_correct_rootlevel_lemma :
+  forall e, lib_ok e = true -> env_root_level e = true ->
+  exists w, run e = ROk w /\ renders_as_spec e w /\
+            w_types w = w_types (init_world e) /\ w_uses w = w_uses (init_world e) /\
+            (forall i n, get (w_state (init_world e)) i = Some n -> n_allof n = [] -> get (w_state w) i = Some n).
+Proof. intros e Hl Hr. apply allof_correct_skeleton_lemma; auto. apply env_root_level_prop. exact Hr. Qed.
+
+(* ------------------------------------------------------------------------------------- *)
+(* the closure does not depend on fuel (once defined) nor on the order of the declarations *)
 
 Lemma lookup_not_in {A} (l : list (bytes * A)) k : ~ In k (map fst l) -> lookup l k = None.
 Proof.
@@ -2225,17 +2730,17 @@ Proof. intros Hl. destruct (lib_facts e Hl) as (_ & Hnd & _). exact Hnd. Qed.
 (* the rendering of a user type is the same in two projects that declare the same types in any
    order and use them from any (other) schemas *)
 Theorem order_independent_lemma e1 e2 :
-  lib_ok e1 = true -> lib_ok e2 = true -> env_root_level e1 = true -> env_root_level e2 = true ->
+  lib_ok e1 = true -> lib_ok e2 = true -> env_skeleton e1 = true -> env_skeleton e2 = true ->
   Permutation (e_types e1) (e_types e2) ->
   exists w1 w2, run e1 = ROk w1 /\ run e2 = ROk w2 /\
     forall name t r1 r2 fuel,
       In (name, Some t) (e_types e1) -> In (name, Some r1) (w_types w1) -> In (name, Some r2) (w_types w2) ->
-      env_size e1 + env_size e2 + 2 <= fuel ->
+      2 * (env_size e1 + env_size e2) + 3 <= fuel ->
       render fuel (w_state w1) r1 = render fuel (w_state w2) r2 /\ render fuel (w_state w1) r1 <> None.
 Proof.
   intros L1 L2 R1 R2 Hperm.
-  destruct (allof_correct_rootlevel_lemma e1 L1 R1) as (w1 & Hrun1 & Hs1 & _).
-  destruct (allof_correct_rootlevel_lemma e2 L2 R2) as (w2 & Hrun2 & Hs2 & _).
+  destruct (allof_correct_skeleton_lemma e1 L1 (env_skeleton_prop e1 R1)) as (w1 & Hrun1 & Hs1 & _).
+  destruct (allof_correct_skeleton_lemma e2 L2 (env_skeleton_prop e2 R2)) as (w2 & Hrun2 & Hs2 & _).
   exists w1, w2. split; [exact Hrun1|]. split; [exact Hrun2|].
   intros name t r1 r2 fuel Hin Hr1 Hr2 Hfuel.
   assert (Hnd1 := lib_ok_nodup e1 L1). assert (Hnd2 := lib_ok_nodup e2 L2).
@@ -2383,11 +2888,12 @@ Lemma process_mono types u : forall fuel st r st', process types u fuel st r = R
 Proof.
   induction fuel as [|f IH]; intros st r st' H; [discriminate|].
   simpl in H. destruct (get st r) as [n|]; [|discriminate].
-  destruct (negb (tok_eqb (n_tok n) TObject)); [injection H as <-; apply mono_refl|].
+  destruct (negb (tok_eqb (n_tok n) TObject) && negb (tok_eqb (n_tok n) TArray)); [injection H as <-; apply mono_refl|].
   apply rbind_ok in H as (s1 & H1 & H2).
   assert (M1 : mono st s1).
   { eapply fold_res_mono; [|exact H1]. intros a x a' _ Hx. eapply IH; eauto. }
   eapply mono_trans; [exact M1|].
+  destruct (negb (tok_eqb (n_tok n) TObject)); [injection H2 as <-; apply mono_refl|].
   destruct (n_allof n); [injection H2 as <-; apply mono_refl|].
   eapply fold_res_mono; [|exact H2]. intros a x a' _ Hx.
   eapply inherit_mono; [|exact Hx]. intros; eapply IH; eauto.
@@ -2414,50 +2920,6 @@ Proof.
   destruct (tok_eqb (n_tok rbn) TObject) eqn:Et; [|discriminate].
   exists rb, a1, rbn. split; [reflexivity|]. split; [eapply mono_trans; eauto|]. split; auto.
   apply tok_eqb_eq. exact Et.
-Qed.
-
-(* shapes of the initial heap, for ANY project *)
-Lemma build_types_shape : forall ts h,
-  (exists x, fst (build_types h ts) = h ++ x) /\
-  Forall2 (tymatch (fst (build_types h ts))) ts (snd (build_types h ts)).
-Proof.
-  induction ts as [|[name o] ts IH]; intros h.
-  - simpl. split; [exists []; rewrite app_nil_r; reflexivity|constructor].
-  - simpl. destruct o as [t|].
-    + destruct (build_shape t h None) as ((x1 & Hx1) & Hs1).
-      destruct (build_tree h None t) as [h1 i]. simpl in Hx1, Hs1.
-      destruct (IH h1) as ((x2 & Hx2) & Hf2).
-      destruct (build_types h1 ts) as [h2 out]. simpl in *. subst h1 h2.
-      split; [exists (x1 ++ x2); rewrite app_assoc; reflexivity|].
-      constructor; auto. split; simpl; auto. apply shape_app. exact Hs1.
-    + destruct (IH h) as ((x2 & Hx2) & Hf2).
-      destruct (build_types h ts) as [h2 out]. simpl in *.
-      split; [exists x2; exact Hx2|]. constructor; auto. split; simpl; auto.
-Qed.
-
-Lemma build_uses_shape : forall us h,
-  (exists x, fst (build_uses h us) = h ++ x) /\
-  Forall2 (usematch (fst (build_uses h us))) us (snd (build_uses h us)).
-Proof.
-  induction us as [|[k t] us IH]; intros h.
-  - simpl. split; [exists []; rewrite app_nil_r; reflexivity|constructor].
-  - simpl. destruct (build_shape t h None) as ((x1 & Hx1) & Hs1).
-    destruct (build_tree h None t) as [h1 i]. simpl in Hx1, Hs1.
-    destruct (IH h1) as ((x2 & Hx2) & Hf2).
-    destruct (build_uses h1 us) as [h2 out]. simpl in *. subst h1 h2.
-    split; [exists (x1 ++ x2); rewrite app_assoc; reflexivity|].
-    constructor; auto. split; simpl; auto. apply shape_app. exact Hs1.
-Qed.
-
-Lemma init_shapes e :
-  Forall2 (tymatch (heap (w_state (init_world e)))) (e_types e) (w_types (init_world e)) /\
-  Forall2 (usematch (heap (w_state (init_world e)))) (e_uses e) (w_uses (init_world e)).
-Proof.
-  unfold init_world. destruct (build_types_shape (e_types e) []) as ((x1 & Hx1) & Hf1).
-  destruct (build_types [] (e_types e)) as [h1 ts]. simpl in Hx1, Hf1.
-  destruct (build_uses_shape (e_uses e) h1) as ((x2 & Hx2) & Hf2).
-  destruct (build_uses h1 (e_uses e)) as [h2 us]. simpl in *. subst h2. split; auto.
-  eapply Forall2_impl'; [|exact Hf1]. intros a b Hab. apply tymatch_app. exact Hab.
 Qed.
 
 Lemma Forall2_In_l {A B} (R : A -> B -> Prop) l1 l2 a :
@@ -2496,13 +2958,14 @@ Theorem bases_checked_lemma e w :
   run e = ROk w ->
   (forall name ao kids b, In (name, Some (Tree TObject ao kids)) (e_types e) -> In b ao ->
      exists ao' kids', lookup (e_types e) b = Some (Some (Tree TObject ao' kids'))) /\
-  (forall k ao kids b, In (k, Tree TObject ao kids) (e_uses e) -> is_rpc k = false -> In b ao ->
+  (forall k ao kids b, In (k, Tree TObject ao kids) (e_uses e) -> In b ao ->
      exists ao' kids', lookup (e_types e) b = Some (Some (Tree TObject ao' kids'))).
 Proof.
   intros Hrun. destruct (init_shapes e) as [Hmt Hmu].
   assert (Hrun' := Hrun). unfold run, run_fuel in Hrun'.
   apply rbind_ok in Hrun' as (stf & Hall & _). unfold process_all in Hall.
   apply rbind_ok in Hall as (st1 & Hty & Hph).
+  apply rbind_ok in Hph as (st2 & Hph & Hrpcpass).
   assert (Mty : mono (w_state (init_world e)) st1).
   { unfold process_types in Hty. eapply fold_res_mono; [|exact Hty].
     intros a x a' _ Hx. cbv beta in Hx. destruct (snd (snd x)); [eapply process_mono; eauto|injection Hx as <-; apply mono_refl]. }
@@ -2517,9 +2980,23 @@ Proof.
     exists a1, a2, i, (default_fuel e). split; [|exact F2].
     eapply fold_res_mono; [|exact F1]. intros a x a' _ Hx. cbv beta in Hx.
     destruct (snd (snd x)); [eapply process_mono; eauto|injection Hx as <-; apply mono_refl].
-  - intros k ao kids b Hin Hrpc Hb.
+  - intros k ao kids b Hin Hb.
     destruct (Forall2_In_l _ _ _ _ Hmu Hin) as ([k' r] & Hin' & (Hk & Hm)). simpl in Hk, Hm. subst k'.
     destruct (In_number_from_ex _ (List.length (w_types (init_world e))) _ Hin') as (i & Hi).
+    assert (Mphase0 : forall ks a a', fold_res (process_phase (default_fuel e) (w_types (init_world e))
+                        (number_from (List.length (w_types (init_world e))) (w_uses (init_world e)))) ks a = ROk a' -> mono a a').
+    { intros ks a a' Hf. eapply fold_res_mono; [|exact Hf]. intros a0 x a0' _ Hx. unfold process_phase in Hx.
+      eapply fold_res_mono; [|exact Hx]. intros c y c' _ Hy. cbv beta in Hy.
+      destruct (ukind_eqb (fst (snd y)) x); [eapply process_mono; eauto|injection Hy as <-; apply mono_refl]. }
+    destruct (is_rpc k) eqn:Hrpc.
+    { (* visited by the JSON-RPC pass *)
+      unfold process_rpc in Hrpcpass. apply in_split in Hi as (l1 & l2 & Hl). rewrite Hl in Hrpcpass.
+      apply fold_res_split in Hrpcpass as (c1 & c2 & G1 & G2 & _). simpl in G2. rewrite Hrpc in G2.
+      apply (visited_root_bases e w r TObject ao kids b Hrun Hm eq_refl Hb).
+      exists c1, c2, i, (default_fuel e). split; [|exact G2].
+      eapply mono_trans; [exact Mty|]. eapply mono_trans; [eapply Mphase0; exact Hph|].
+      eapply fold_res_mono; [|exact G1]. intros c y c' _ Hy. cbv beta in Hy.
+      destruct (is_rpc (fst (snd y))); [eapply process_mono; eauto|injection Hy as <-; apply mono_refl]. }
     assert (Hkp : In k phases) by (unfold phases; destruct k; simpl in *; try discriminate; auto 10).
     apply in_split in Hkp as (p1 & p2 & Hp). rewrite Hp in Hph.
     apply fold_res_split in Hph as (b1 & b2 & P1 & P2 & _).
@@ -2539,11 +3016,11 @@ Proof.
 Qed.
 
 Lemma bases_unchanged_lemma :
-  forall e, lib_ok e = true -> env_root_level e = true ->
+  forall e, lib_ok e = true -> env_skeleton e = true ->
   exists w, run e = ROk w /\
             forall i n, get (w_state (init_world e)) i = Some n -> n_allof n = [] -> get (w_state w) i = Some n.
 Proof.
-  intros e Hl Hr. destruct (allof_correct_rootlevel_lemma e Hl Hr) as (w & Hrun & _ & _ & _ & _ & Hu).
+  intros e Hl Hr. destruct (allof_correct_skeleton_lemma e Hl (env_skeleton_prop e Hr)) as (w & Hrun & _ & _ & _ & Hu).
   exists w. split; [exact Hrun | exact Hu].
 Qed.
 
@@ -2681,35 +3158,54 @@ Example marking_is_direct_base :
   = Some (robj [leaf "a" "@a"; leaf "b" "@b"; leaf "c" ""]).
 Proof. vm_compute. split; reflexivity. Qed.
 
-(* ---- the two classes of accepted documents where allOf is NOT applied ---- *)
+(* ---- array items and JSON-RPC schemas (the two classes in which allOf was NOT applied before
+   the fixes a2c8521 / d4084b3 of /repo) ---- *)
 
 Definition ex_array : env :=
-  {| e_types := [ty "@a" (obj [] [prop "a" sc])];
-     e_uses := [(URespBody, arr [obj ["@a"] [prop "z" sc]])] |}.
+  {| e_types := [ty "@a" (obj [] [prop "a" sc]);
+                 ty "@l" (obj [] [prop "items" (arr [obj ["@a"] [prop "m" sc]; sc])])];
+     e_uses := [(URespBody, arr [obj ["@a"] [prop "z" sc]]);
+                (UReqBody, obj ["@l"] [prop "w" (arr [arr [obj ["@a"] []]])])] |}.
 
-Lemma allof_in_array_refuted_lemma :
-  exists e, lib_ok e = true /\ env_no_rpc_allof e = true /\ env_no_array_allof e = false /\
-            exists w, run e = ROk w /\
-                      map snd (o_uses (observe e w)) = [Some (RNode None TArray [] [RNode None TObject [] [leaf "z" ""]])] /\
-                      map (fun x => spec_schema e (snd x)) (e_uses e)
-                      = [Some (RNode None TArray [] [RNode None TObject [] [leaf "a" "@a"; leaf "z" ""]])].
-Proof.
-  exists ex_array. vm_compute. repeat split. eexists. repeat split.
-Qed.
+Lemma array_items_inherit_lemma :
+  lib_ok ex_array = true /\ env_no_array_allof ex_array = false /\ compare_env ex_array = VAgree /\
+  uses_of ex_array =
+  ROk [(URespBody, Some (RNode None TArray [] [RNode None TObject [] [leaf "a" "@a"; leaf "z" ""]]));
+       (UReqBody, Some (robj [RNode (Some (bs "items")) TArray (bs "@l")
+                                    [RNode None TObject [] [leaf "a" "@a"; leaf "m" ""]; RNode None TOther [] []];
+                              RNode (Some (bs "w")) TArray []
+                                    [RNode None TArray [] [RNode None TObject [] [leaf "a" "@a"]]]]))].
+Proof. vm_compute. repeat split. Qed.
 
 Definition ex_rpc : env :=
-  {| e_types := [ty "@a" (obj [] [prop "a" sc])];
-     e_uses := [(URpcParams, obj ["@a"] [prop "p" sc]); (URpcResult, obj ["@a"] [])] |}.
+  {| e_types := [ty "@a" (obj [] [prop "a" sc]); ty "@b" (obj ["@a"] [prop "b" sc])];
+     e_uses := [(URpcParams, obj ["@b"] [prop "p" sc]); (URpcResult, obj ["@a"] []);
+                (URespBody, obj ["@a"] [prop "z" sc]); (URpcParams, arr [obj ["@b"] []])] |}.
 
-Lemma allof_in_rpc_refuted_lemma :
-  exists e, lib_ok e = true /\ env_root_level e = true /\ env_no_array_allof e = true /\ env_no_rpc_allof e = false /\
-            exists w, run e = ROk w /\
-                      map snd (o_uses (observe e w)) = [Some (robj [leaf "p" ""]); Some (robj [])] /\
-                      map (fun x => spec_schema e (snd x)) (e_uses e)
-                      = [Some (robj [leaf "a" "@a"; leaf "p" ""]); Some (robj [leaf "a" "@a"])].
-Proof.
-  exists ex_rpc. vm_compute. repeat split. eexists. repeat split.
-Qed.
+Lemma rpc_schemas_inherit_lemma :
+  lib_ok ex_rpc = true /\ env_no_rpc_allof ex_rpc = false /\ compare_env ex_rpc = VAgree /\
+  uses_of ex_rpc =
+  ROk [(URpcParams, Some (robj [leaf "a" "@b"; leaf "b" "@b"; leaf "p" ""]));
+       (URpcResult, Some (robj [leaf "a" "@a"]));
+       (URespBody, Some (robj [leaf "a" "@a"; leaf "z" ""]));
+       (URpcParams, Some (RNode None TArray [] [RNode None TObject [] [leaf "a" "@b"; leaf "b" "@b"]]))].
+Proof. vm_compute. repeat split. Qed.
+
+(* in the class of allof_correct_skeleton: rules on array items and on nested objects of use-site
+   schemas and of a user type nobody inherits from (@page); the bases @a, @b are flat *)
+Definition ex_skeleton : env :=
+  {| e_types := [ty "@a" (obj [] [prop "a" sc]); ty "@b" (obj ["@a"] [prop "b" sc]);
+                 ty "@page" (obj [] [prop "items" (arr [obj ["@b"] [prop "m" sc]; sc]); prop "n" sc]);
+                 ty "@list" (arr [obj ["@a"] []])];
+     e_uses := [(URespBody, arr [obj ["@b"] [prop "z" sc]]);
+                (UReqBody, obj [] [prop "w" (arr [arr [obj ["@a"] []]]); prop "v" (obj ["@b"] [prop "q" (obj [] [prop "r" sc])])]);
+                (URpcResult, obj ["@b"] [])] |}.
+
+Lemma skeleton_example_lemma :
+  lib_ok ex_skeleton = true /\ env_skeleton ex_skeleton = true /\ env_root_level ex_skeleton = false /\
+  compare_env ex_skeleton = VAgree /\
+  env_skeleton ex_array = false /\ env_skeleton ex_nested = false.
+Proof. vm_compute. repeat split. Qed.
 
 (* ---- usedUserTypes DOES depend on the declaration order (property C10, not C12): the base's
    base is added to the set of whichever schema happened to trigger the base's processing ---- *)
